@@ -1,2 +1,1572 @@
 (* Proofs for C02. *)
-From WI Require Import Lib.Base Lib.Info Model.Keys.
+From WI Require Import Lib.Base Lib.Info Lib.Strings Model.Keys.
+From Coq Require Import ZifyN ZifyNat ZifyBool.
+Import gen.KeyTables.
+Open Scope N_scope.
+
+(* ================================================================== *)
+(* lists                                                               *)
+(* ================================================================== *)
+
+Lemma take_app_length : forall A (a b : list A), take (length a) (a ++ b) = a.
+Proof. induction a as [|x a IH]; intros b; cbn [length take app]; [reflexivity|now rewrite IH]. Qed.
+
+Lemma drop_app_length : forall A (a b : list A), drop (length a) (a ++ b) = b.
+Proof. induction a as [|x a IH]; intros b; cbn [length drop app]; [reflexivity|apply IH]. Qed.
+
+Lemma take_length_le : forall A n (l : list A), (length (take n l) <= n)%nat.
+Proof. induction n as [|n IH]; intros [|x l]; cbn [take length]; try lia. specialize (IH l). lia. Qed.
+
+Lemma length_take : forall A n (l : list A), (n <= length l)%nat -> length (take n l) = n.
+Proof.
+  induction n as [|n IH]; intros [|x l] H; cbn [take length] in *; try lia. rewrite IH; lia.
+Qed.
+
+Lemma length_drop : forall A n (l : list A), length (drop n l) = (length l - n)%nat.
+Proof. induction n as [|n IH]; intros [|x l]; cbn [drop length]; try lia. apply IH. Qed.
+
+Lemma take_drop_id : forall A n (l : list A), take n l ++ drop n l = l.
+Proof. induction n as [|n IH]; intros [|x l]; cbn [take drop app]; try reflexivity. now rewrite IH. Qed.
+
+Lemma read_full_app : forall a b, read_full (length a) (a ++ b) = Ok (a, b).
+Proof.
+  intros a b. unfold read_full. rewrite app_length.
+  destruct (Nat.ltb (length a + length b) (length a)) eqn:E.
+  - apply Nat.ltb_lt in E. lia.
+  - now rewrite take_app_length, drop_app_length.
+Qed.
+
+Lemma read_full_not_panic : forall k r s, read_full k r <> Panic s.
+Proof. intros k r s. unfold read_full. destruct (Nat.ltb (length r) k); discriminate. Qed.
+
+(* ================================================================== *)
+(* big-endian numbers                                                  *)
+(* ================================================================== *)
+
+Lemma be_to_N_acc_app : forall l1 l2 a, be_to_N_acc a (l1 ++ l2) = be_to_N_acc (be_to_N_acc a l1) l2.
+Proof. induction l1 as [|x l1 IH]; intros l2 a; cbn [app be_to_N_acc]; [reflexivity|apply IH]. Qed.
+
+Lemma be_to_N_snoc : forall l b, be_to_N (l ++ [b]) = be_to_N l * 256 + b.
+Proof. intros. unfold be_to_N. rewrite be_to_N_acc_app. reflexivity. Qed.
+
+Lemma be_to_N_acc_lin : forall l a, be_to_N_acc a l = a * 256 ^ N.of_nat (length l) + be_to_N_acc 0 l.
+Proof.
+  induction l as [|x l IH]; intros a.
+  - cbn [be_to_N_acc length]. change (N.of_nat 0) with 0. rewrite N.pow_0_r. lia.
+  - cbn [be_to_N_acc length]. rewrite IH, (IH (0 * 256 + x)).
+    rewrite Nat2N.inj_succ, N.pow_succ_r'. lia.
+Qed.
+
+Lemma be_to_N_cons : forall x l, be_to_N (x :: l) = x * 256 ^ N.of_nat (length l) + be_to_N l.
+Proof. intros. unfold be_to_N. cbn [be_to_N_acc]. rewrite be_to_N_acc_lin. lia. Qed.
+
+Lemma be_to_N_zero_cons : forall l, be_to_N (0 :: l) = be_to_N l.
+Proof. intros. rewrite be_to_N_cons. lia. Qed.
+
+Lemma length_N_to_be : forall w n, length (N_to_be w n) = w.
+Proof. induction w as [|w IH]; intros n; cbn [N_to_be]; [reflexivity|]. rewrite app_length, IH. cbn. lia. Qed.
+
+Lemma be_to_N_N_to_be : forall w n, n < 256 ^ N.of_nat w -> be_to_N (N_to_be w n) = n.
+Proof.
+  induction w as [|w IH]; intros n H.
+  - cbn in H. cbn. lia.
+  - cbn [N_to_be]. rewrite be_to_N_snoc. rewrite IH.
+    + pose proof (N.div_mod n 256). lia.
+    + rewrite Nat2N.inj_succ, N.pow_succ_r' in H. apply N.div_lt_upper_bound; lia.
+Qed.
+
+Lemma N_to_be_bytes_ok : forall w n, forallb byte_ok (N_to_be w n) = true.
+Proof.
+  induction w as [|w IH]; intros n; cbn [N_to_be]; [reflexivity|].
+  rewrite forallb_app, IH. cbn [forallb andb]. unfold byte_ok.
+  pose proof (N.mod_lt n 256). destruct (n mod 256 <? 256) eqn:E; [reflexivity|]. apply N.ltb_ge in E. lia.
+Qed.
+
+(* the first byte of the w+1-byte form is the digit of weight 256^w *)
+Lemma N_to_be_head : forall w n, N_to_be (S w) n = (n / 256 ^ N.of_nat w) mod 256 :: N_to_be w n.
+Proof.
+  induction w as [|w IH]; intros n.
+  - cbn [N_to_be app]. change (N.of_nat 0) with 0. rewrite N.pow_0_r, N.div_1_r. reflexivity.
+  - change (N_to_be (S (S w)) n) with (N_to_be (S w) (n / 256) ++ [n mod 256]).
+    rewrite IH. cbn [app]. f_equal.
+    + rewrite Nat2N.inj_succ, N.pow_succ_r', N.div_div by (try apply N.pow_nonzero; lia). reflexivity.
+Qed.
+
+(* ================================================================== *)
+(* bit length                                                          *)
+(* ================================================================== *)
+
+Lemma size_pos_bounds : forall n, 0 < n -> 2 ^ (N.size n - 1) <= n < 2 ^ N.size n.
+Proof.
+  intros n H. rewrite N.size_log2 by lia.
+  replace (N.succ (N.log2 n) - 1) with (N.log2 n) by lia.
+  destruct (N.log2_spec n H). split; assumption.
+Qed.
+
+Lemma pow256 : forall k, 256 ^ k = 2 ^ (8 * k).
+Proof. intros. change 256 with (2 ^ 8). now rewrite <- N.pow_mul_r. Qed.
+
+Lemma byte_len_spec : forall n, N.of_nat (byte_len n) = (N.size n + 7) / 8.
+Proof. intros. unfold byte_len. now rewrite N2Nat.id. Qed.
+
+Lemma lt_pow_byte_len : forall n, n < 256 ^ N.of_nat (byte_len n).
+Proof.
+  intros n. rewrite byte_len_spec, pow256.
+  apply N.lt_le_trans with (2 ^ N.size n); [apply N.size_gt|].
+  apply N.pow_le_mono_r; [lia|].
+  pose proof (N.div_mod (N.size n + 7) 8). pose proof (N.mod_lt (N.size n + 7) 8). lia.
+Qed.
+
+Lemma be_to_N_be_min : forall n, be_to_N (be_min n) = n.
+Proof. intros. unfold be_min. apply be_to_N_N_to_be, lt_pow_byte_len. Qed.
+
+Lemma length_be_min : forall n, N.of_nat (length (be_min n)) = (N.size n + 7) / 8.
+Proof. intros. unfold be_min. now rewrite length_N_to_be, byte_len_spec. Qed.
+
+Lemma be_min_zero : be_min 0 = [].
+Proof. reflexivity. Qed.
+
+(* a positive number's minimal form starts with a non-zero byte *)
+Lemma be_min_head : forall n, 0 < n ->
+  exists x r, be_min n = x :: r /\ 0 < x < 256.
+Proof.
+  intros n Hn. unfold be_min.
+  assert (Hs : 0 < N.size n) by (rewrite N.size_log2 by lia; lia).
+  destruct (byte_len n) as [|w] eqn:Ew.
+  - exfalso. pose proof (byte_len_spec n) as Hb. rewrite Ew in Hb. change (N.of_nat 0) with 0 in Hb.
+    pose proof (N.div_mod (N.size n + 7) 8). pose proof (N.mod_lt (N.size n + 7) 8). lia.
+  - rewrite N_to_be_head. eexists; eexists; split; [reflexivity|].
+    pose proof (byte_len_spec n) as Hb. rewrite Ew, Nat2N.inj_succ in Hb.
+    destruct (size_pos_bounds n Hn) as [Hlo Hhi].
+    assert (H8 : 8 * N.of_nat w <= N.size n - 1 /\ N.size n <= 8 * N.of_nat w + 8).
+    { pose proof (N.div_mod (N.size n + 7) 8). pose proof (N.mod_lt (N.size n + 7) 8). lia. }
+    assert (Hp : 256 ^ N.of_nat w <> 0) by (apply N.pow_nonzero; lia).
+    assert (Hq1 : 1 <= n / 256 ^ N.of_nat w).
+    { apply N.div_le_lower_bound; [assumption|]. rewrite N.mul_1_r, pow256.
+      apply N.le_trans with (2 ^ (N.size n - 1)); [apply N.pow_le_mono_r; lia|assumption]. }
+    assert (Hq2 : n / 256 ^ N.of_nat w < 256).
+    { apply N.div_lt_upper_bound; [assumption|].
+      apply N.lt_le_trans with (2 ^ N.size n); [assumption|].
+      rewrite pow256. change 256 with (2 ^ 8). rewrite <- N.pow_add_r.
+      apply N.pow_le_mono_r; lia. }
+    rewrite N.mod_small by assumption. lia.
+Qed.
+
+(* ---------- DER INTEGER ---------- *)
+
+Lemma twos_nonneg : forall x r, x < 128 -> twos (x :: r) = Z.of_N (be_to_N (x :: r)).
+Proof.
+  intros x r H. unfold twos. destruct (128 <=? x) eqn:E; [apply N.leb_le in E; lia|reflexivity].
+Qed.
+
+Lemma der_int_roundtrip : forall n, der_int_dec (der_int_enc n) = Ok (Z.of_N n).
+Proof.
+  intros n. destruct (N.eq_dec n 0) as [->|Hn].
+  - reflexivity.
+  - destruct (be_min_head n) as [x [r [Hb [Hx0 Hx1]]]]; [lia|].
+    pose proof (be_to_N_be_min n) as Hv. unfold der_int_enc. rewrite Hb in *.
+    destruct (128 <=? x) eqn:E.
+    + (* sign octet *)
+      cbn [der_int_dec]. rewrite N.eqb_refl.
+      assert (E2 : (x <? 128) = false) by (apply N.ltb_ge; apply N.leb_le in E; lia).
+      rewrite E2. cbn [andb orb]. change (0 =? 255) with false. cbn [andb].
+      rewrite twos_nonneg by lia. now rewrite be_to_N_zero_cons, Hv.
+    + apply N.leb_gt in E. destruct r as [|y r'].
+      * cbn [der_int_dec]. rewrite twos_nonneg by assumption. now rewrite Hv.
+      * cbn [der_int_dec].
+        assert (E0 : (x =? 0) = false) by (apply N.eqb_neq; lia).
+        assert (E255 : (x =? 255) = false) by (apply N.eqb_neq; lia).
+        rewrite E0, E255. cbn [andb orb]. rewrite twos_nonneg by assumption. now rewrite Hv.
+Qed.
+
+Lemma bitlen_der : forall n z, der_int_dec (der_int_enc n) = Ok z -> zbitlen z = bitlen n.
+Proof.
+  intros n z H. rewrite der_int_roundtrip in H. inversion H; subst.
+  unfold zbitlen, bitlen. now rewrite Zabs2N.id.
+Qed.
+
+Lemma twos_der_int_enc : forall n, twos (der_int_enc n) = Z.of_N n.
+Proof.
+  intros n. pose proof (der_int_roundtrip n) as H. unfold der_int_dec in H.
+  destruct (der_int_enc n) as [|x [|y r]]; try discriminate.
+  - now inversion H.
+  - destruct (((x =? 0) && (y <? 128)) || ((x =? 255) && (128 <=? y))); [discriminate|now inversion H].
+Qed.
+
+(* ---------- SSH mpint ---------- *)
+
+Lemma mpint_roundtrip : forall n, mpint_dec (mpint_enc n) = Z.of_N n.
+Proof.
+  intros n. destruct (N.eq_dec n 0) as [->|Hn]; [reflexivity|].
+  destruct (be_min_head n) as [x [r [Hb [Hx0 Hx1]]]]; [lia|].
+  pose proof (be_to_N_be_min n) as Hv. unfold mpint_enc, mpint_dec. rewrite Hb in *.
+  destruct (128 <=? x) eqn:E.
+  - rewrite twos_nonneg by lia. now rewrite be_to_N_zero_cons, Hv.
+  - apply N.leb_gt in E. rewrite twos_nonneg by assumption. now rewrite Hv.
+Qed.
+
+Lemma putty_mpint_roundtrip : forall n, putty_mpint_dec (mpint_enc n) = n.
+Proof.
+  intros n. unfold putty_mpint_dec, mpint_enc. pose proof (be_to_N_be_min n) as Hv.
+  destruct (be_min n) as [|x r] eqn:Hb; [exact Hv|].
+  destruct (128 <=? x); [now rewrite be_to_N_zero_cons|assumption].
+Qed.
+
+Lemma length_mpint_enc : forall n, N.of_nat (length (mpint_enc n)) <= (N.size n + 7) / 8 + 1.
+Proof.
+  intros n. unfold mpint_enc. pose proof (length_be_min n) as H.
+  destruct (be_min n) as [|x r]; [cbn; lia|].
+  destruct (128 <=? x); cbn [length] in *; lia.
+Qed.
+
+(* ---------- SSH1 MPI ---------- *)
+
+Lemma ssh1_read_mpint_raw_enc : forall n rest, bitlen n < 65536 ->
+  ssh1_read_mpint_raw (ssh1_mpi_enc n ++ rest) = Ok (be_min n, rest).
+Proof.
+  intros n rest H. unfold ssh1_read_mpint_raw, ssh1_mpi_enc.
+  rewrite <- app_assoc.
+  replace 2%nat with (length (N_to_be 2 (bitlen n))) at 1 by apply length_N_to_be.
+  rewrite read_full_app. cbn [bind].
+  rewrite be_to_N_N_to_be by (change (256 ^ N.of_nat 2) with 65536; assumption).
+  unfold bitlen. fold (byte_len n).
+  replace (byte_len n) with (length (be_min n)) by (unfold be_min; apply length_N_to_be).
+  rewrite app_length.
+  destruct (Nat.ltb (length (be_min n) + length rest) (length (be_min n))) eqn:E;
+    [apply Nat.ltb_lt in E; lia|].
+  apply read_full_app.
+Qed.
+
+Lemma ssh1_mpi_roundtrip : forall n rest, bitlen n < 65536 ->
+  ssh1_read_mpint (ssh1_mpi_enc n ++ rest) = Ok (n, rest).
+Proof.
+  intros. unfold ssh1_read_mpint. rewrite ssh1_read_mpint_raw_enc by assumption.
+  cbn [bind]. now rewrite be_to_N_be_min.
+Qed.
+
+Lemma zbitlen_of_N : forall n, zbitlen (Z.of_N n) = bitlen n.
+Proof. intros. unfold zbitlen, bitlen. now rewrite Zabs2N.id. Qed.
+
+(* ================================================================== *)
+(* nothing here can panic                                              *)
+(* ================================================================== *)
+
+Lemma bind_not_panic : forall A B (r : result A) (f : A -> result B),
+  (forall s, r <> Panic s) -> (forall a s, f a <> Panic s) -> forall s, bind r f <> Panic s.
+Proof. intros A B [a|e|p] f Hr Hf s; cbn [bind]; [apply Hf|discriminate|exfalso; now apply (Hr p)]. Qed.
+
+Lemma ssh1_read_mpint_raw_not_panic : forall r s, ssh1_read_mpint_raw r <> Panic s.
+Proof.
+  intros r s. unfold ssh1_read_mpint_raw. apply bind_not_panic; [apply read_full_not_panic|].
+  intros [l r1] s'. destruct (Nat.ltb _ _); [discriminate|apply read_full_not_panic].
+Qed.
+
+Lemma ssh1_read_string_not_panic : forall r s, ssh1_read_string r <> Panic s.
+Proof.
+  intros r s. unfold ssh1_read_string. apply bind_not_panic; [apply read_full_not_panic|].
+  intros [l r1] s'. destruct (_ <? _); [discriminate|apply read_full_not_panic].
+Qed.
+
+(* ssh1.ParsePrivateKey never panics, whatever the bytes and whatever 3DES returns:
+   both slice expressions are behind the length check and CryptBlocks only sees whole blocks *)
+Lemma ssh1_parse_no_panic : forall dec data s, ssh1_parse dec data <> Panic s.
+Proof.
+  intros dec data s. unfold ssh1_parse.
+  destruct (Nat.ltb (length data) (length ssh1_header)) eqn:El; [discriminate|].
+  apply Nat.ltb_ge in El.
+  unfold go_slice_to, go_slice_from.
+  destruct (Nat.ltb (length data) (length ssh1_header)) eqn:El2; [apply Nat.ltb_lt in El2; lia|].
+  cbn [bind]. destruct (negb _); [discriminate|].
+  apply bind_not_panic.
+  { intros s'. destruct (read_full 9 _) as [x|e|p] eqn:E; try discriminate. }
+  intros [hdr9 r] s1. apply bind_not_panic; [apply ssh1_read_mpint_raw_not_panic|].
+  intros [n r1] s2. apply bind_not_panic; [apply ssh1_read_mpint_raw_not_panic|].
+  intros [e r2] s3. apply bind_not_panic; [apply ssh1_read_string_not_panic|].
+  intros [c r3] s4. apply bind_not_panic.
+  { intros s'. destruct (nth 0 hdr9 0 =? 3); [|discriminate].
+    destruct (Nat.eqb (Nat.modulo (length r3) 8) 0) eqn:Em; cbn [negb]; [|discriminate].
+    unfold ssh1_decrypt. rewrite Em. discriminate. }
+  intros [r4|] s5; [|discriminate].
+  destruct (read_full 4 r4) as [[abab r5]|e'|p'] eqn:E4; try discriminate.
+  destruct (negb _); [discriminate|].
+  apply bind_not_panic; [apply ssh1_read_mpint_raw_not_panic|].
+  intros [d r6] s6. apply bind_not_panic; [apply ssh1_read_mpint_raw_not_panic|].
+  intros [qi r7] s7. apply bind_not_panic; [apply ssh1_read_mpint_raw_not_panic|].
+  intros [q r8] s8. apply bind_not_panic; [apply ssh1_read_mpint_raw_not_panic|].
+  intros [p r9] s9. discriminate.
+Qed.
+
+(* a key that was read at all has at least the header and nine more bytes *)
+Lemma ssh1_parse_ok_length : forall dec data o, ssh1_parse dec data = Ok o ->
+  (length ssh1_header + 9 <= length data)%nat.
+Proof.
+  intros dec data o. unfold ssh1_parse.
+  destruct (Nat.ltb (length data) (length ssh1_header)) eqn:El; [discriminate|].
+  unfold go_slice_to, go_slice_from. rewrite El. cbn [bind].
+  destruct (negb _); [discriminate|].
+  unfold read_full at 1. rewrite length_drop.
+  destruct (Nat.ltb (length data - length ssh1_header) 9) eqn:E9; cbn [bind]; [discriminate|].
+  apply Nat.ltb_ge in E9. apply Nat.ltb_ge in El. intros _. lia.
+Qed.
+
+Lemma ssh1_private_key_no_panic : forall fx dec data s, ssh1_private_key fx dec data <> Panic s.
+Proof.
+  intros fx dec data s. unfold ssh1_private_key.
+  destruct (ssh1_parse dec data) as [o|e|p] eqn:E; cbn [bind]; [|discriminate|exfalso; now apply (ssh1_parse_no_panic dec data p)].
+  destruct o as [k|n e c]; [discriminate|].
+  destruct (fx_ssh1_enc fx); [|discriminate].
+  apply ssh1_parse_ok_length in E. unfold go_index.
+  destruct (Nat.ltb (length ssh1_header) (length data)) eqn:El; [|apply Nat.ltb_ge in El; lia].
+  cbn [bind]. destruct (_ =? 0); discriminate.
+Qed.
+
+(* parseKdfOptions after the repair: no slice expression can fail, for any window of any buffer *)
+Lemma kdf_no_panic : forall buf off len s, parse_kdf_options true buf off len <> Panic s.
+Proof.
+  intros buf off len s. unfold parse_kdf_options.
+  destruct (Nat.ltb len 8); [discriminate|]. destruct (negb _); discriminate.
+Qed.
+
+(* before the repair the FF FF FF FC options of F35 panic *)
+Lemma kdf_panics_before : exists buf off len s, parse_kdf_options false buf off len = Panic s.
+Proof. exists [255; 255; 255; 252], 0%nat, 4%nat. eexists. vm_compute. reflexivity. Qed.
+
+(* and empty options are read past their end: the following field decides the outcome *)
+Lemma kdf_reads_next_field_before :
+  parse_kdf_options false ([0; 0; 0; 0] ++ [0; 0; 0; 1; 9; 9; 9; 9]) 4 0 = Err "invalid KDF options"
+  /\ parse_kdf_options false ([0; 0; 0; 0] ++ [255; 255; 255; 248; 9; 9; 9; 9]) 4 0
+     = Panic "slice bounds out of range [i:len]"
+  /\ parse_kdf_options false [0; 0; 0; 0] 4 0 = Panic "slice bounds out of range [:4] with capacity".
+Proof. repeat split; vm_compute; reflexivity. Qed.
+
+(* ================================================================== *)
+(* SSH wire format                                                     *)
+(* ================================================================== *)
+
+Definition fits32 (s : bytes) : Prop := N.of_nat (length s) < 4294967296.
+
+Lemma ssh_read_u32_enc : forall v r, v < 4294967296 -> ssh_read_u32 (N_to_be 4 v ++ r) = Some (v, r).
+Proof.
+  intros v r H. unfold ssh_read_u32. rewrite app_length, length_N_to_be.
+  destruct (Nat.ltb (4 + length r) 4) eqn:E; [apply Nat.ltb_lt in E; lia|].
+  replace 4%nat with (length (N_to_be 4 v)) by apply length_N_to_be.
+  rewrite take_app_length, drop_app_length, be_to_N_N_to_be; [reflexivity|].
+  rewrite length_N_to_be. exact H.
+Qed.
+
+Lemma ssh_read_string_enc : forall s r, fits32 s -> ssh_read_string (ssh_string_enc s ++ r) = Some (s, r).
+Proof.
+  intros s r H. unfold ssh_read_string, ssh_string_enc. rewrite <- app_assoc.
+  rewrite ssh_read_u32_enc by exact H. rewrite app_length.
+  destruct (N.of_nat (length s + length r) <? N.of_nat (length s)) eqn:E; [apply N.ltb_lt in E; lia|].
+  now rewrite Nat2N.id, take_app_length, drop_app_length.
+Qed.
+
+Lemma ssh_read_string_enc_nil : forall s, fits32 s -> ssh_read_string (ssh_string_enc s) = Some (s, []).
+Proof. intros s H. rewrite <- (app_nil_r (ssh_string_enc s)). now apply ssh_read_string_enc. Qed.
+
+Lemma drop_add : forall A a b (l : list A), drop (a + b) l = drop b (drop a l).
+Proof.
+  induction a as [|a IH]; intros b [|x l]; cbn [drop Nat.add]; try reflexivity.
+  - destruct b; reflexivity.
+  - apply IH.
+Qed.
+
+Lemma putty_read_enc : forall s r, fits32 s -> putty_read (ssh_string_enc s ++ r) = Some (s, r).
+Proof.
+  intros s r H. unfold putty_read, ssh_string_enc.
+  set (L := N_to_be 4 (N.of_nat (length s))).
+  assert (HL : length L = 4%nat) by apply length_N_to_be.
+  rewrite <- app_assoc.
+  assert (Ht : take 4 (L ++ s ++ r) = L) by (rewrite <- HL; apply take_app_length).
+  assert (Hd : drop 4 (L ++ s ++ r) = s ++ r) by (rewrite <- HL; apply drop_app_length).
+  rewrite drop_add, Ht, Hd.
+  assert (Hv : be_to_N L = N.of_nat (length s)).
+  { unfold L. apply be_to_N_N_to_be. exact H. }
+  rewrite Hv, Nat2N.id, take_app_length, drop_app_length.
+  rewrite !app_length, HL.
+  destruct (Nat.ltb (4 + (length s + length r)) 4) eqn:E; [apply Nat.ltb_lt in E; lia|].
+  destruct (N.of_nat (4 + (length s + length r)) <? 4 + N.of_nat (length s)) eqn:E2; [apply N.ltb_lt in E2; lia|].
+  reflexivity.
+Qed.
+
+Lemma putty_read_enc_nil : forall s, fits32 s -> putty_read (ssh_string_enc s) = Some (s, []).
+Proof. intros s H. rewrite <- (app_nil_r (ssh_string_enc s)). now apply putty_read_enc. Qed.
+
+Lemma fits32_mpint : forall n, bitlen n < 17179869184 -> fits32 (mpint_enc n).
+Proof.
+  intros n H. unfold fits32. pose proof (length_mpint_enc n). unfold bitlen in H.
+  assert ((N.size n + 7) / 8 < 2147483650).
+  { apply N.div_lt_upper_bound; lia. }
+  lia.
+Qed.
+
+Lemma fits32_small : forall s, (length s < 1000)%nat -> fits32 s.
+Proof. intros s H. unfold fits32. lia. Qed.
+
+(* ---------- public key blobs ---------- *)
+
+Definition e_ok (e : N) : Prop := 3 <= e /\ e < 16777216 /\ N.odd e = true.
+
+Lemma bitlen_lt_pow : forall n k, n < 2 ^ k -> bitlen n <= k.
+Proof.
+  intros n k H. unfold bitlen. destruct (N.eq_dec n 0) as [->|Hn]; [cbn; lia|].
+  rewrite N.size_log2 by assumption.
+  assert (N.log2 n < k) by (apply N.log2_lt_pow2; lia). lia.
+Qed.
+
+Lemma ssh_parse_rsa_blob : forall o e n, e_ok e -> fits32 (mpint_enc n) ->
+  ssh_parse_public o (ssh_rsa_blob e n) = Ok (mk_sshkey (bs "ssh-rsa") (Some (PkRsa (Z.of_N n)))).
+Proof.
+  intros o e n [He1 [He2 He3]] Hn. unfold ssh_parse_public, ssh_rsa_blob.
+  rewrite ssh_read_string_enc by (apply fits32_small; cbn; lia).
+  change (bytes_eqb (bs "ssh-rsa") (bs "ssh-rsa")) with true. cbv beta iota.
+  assert (Hfe : fits32 (mpint_enc e)).
+  { apply fits32_mpint. pose proof (bitlen_lt_pow e 24). change (2 ^ 24) with 16777216 in *. lia. }
+  rewrite ssh_read_string_enc by exact Hfe. cbv beta iota.
+  rewrite ssh_read_string_enc_nil by exact Hn. cbv beta iota.
+  rewrite !mpint_roundtrip, zbitlen_of_N.
+  assert (Hb : (24 <? bitlen e) = false).
+  { apply N.ltb_ge. apply bitlen_lt_pow. exact He2. }
+  rewrite Hb.
+  assert (H3 : (Z.of_N e <? 3)%Z = false) by (apply Z.ltb_ge; lia).
+  rewrite H3. cbn [orb].
+  assert (Hev : Z.even (Z.of_N e) = false).
+  { rewrite <- Z.negb_odd. destruct e as [|p]; [discriminate|]. cbn [Z.of_N Z.odd N.odd] in *.
+    destruct p; cbn in *; congruence. }
+  now rewrite Hev.
+Qed.
+
+Lemma ssh_parse_dss_blob : forall o p q g y, bitlen p = 1024 ->
+  fits32 (mpint_enc q) -> fits32 (mpint_enc g) -> fits32 (mpint_enc y) ->
+  ssh_parse_public o (ssh_dss_blob p q g y) = Ok (mk_sshkey (bs "ssh-dss") (Some (PkDsa (Z.of_N p)))).
+Proof.
+  intros o p q g y Hp Hq Hg Hy. unfold ssh_parse_public, ssh_dss_blob.
+  rewrite ssh_read_string_enc by (apply fits32_small; cbn; lia).
+  change (bytes_eqb (bs "ssh-dss") (bs "ssh-rsa")) with false.
+  change (bytes_eqb (bs "ssh-dss") (bs "ssh-dss")) with true. cbv beta iota.
+  rewrite ssh_read_string_enc by (apply fits32_mpint; rewrite Hp; lia). cbv beta iota.
+  rewrite ssh_read_string_enc by exact Hq. cbv beta iota.
+  rewrite ssh_read_string_enc by exact Hg. cbv beta iota.
+  rewrite ssh_read_string_enc_nil by exact Hy. cbv beta iota.
+  rewrite !mpint_roundtrip, zbitlen_of_N, Hp. reflexivity.
+Qed.
+
+Lemma ssh_parse_ed25519_blob : forall o pk, length pk = 32%nat ->
+  ssh_parse_public o (ssh_ed25519_blob pk) = Ok (mk_sshkey (bs "ssh-ed25519") (Some PkEd25519)).
+Proof.
+  intros o pk H. unfold ssh_parse_public, ssh_ed25519_blob.
+  rewrite ssh_read_string_enc by (apply fits32_small; cbn; lia).
+  change (bytes_eqb (bs "ssh-ed25519") (bs "ssh-rsa")) with false.
+  change (bytes_eqb (bs "ssh-ed25519") (bs "ssh-dss")) with false.
+  change (bytes_eqb (bs "ssh-ed25519") (bs "ecdsa-sha2-nistp256")) with false.
+  change (bytes_eqb (bs "ssh-ed25519") (bs "ecdsa-sha2-nistp384")) with false.
+  change (bytes_eqb (bs "ssh-ed25519") (bs "ecdsa-sha2-nistp521")) with false.
+  change (bytes_eqb (bs "ssh-ed25519") (bs "ssh-ed25519")) with true. cbv beta iota. cbn [orb].
+  rewrite ssh_read_string_enc_nil by (apply fits32_small; lia). cbv beta iota.
+  rewrite H. reflexivity.
+Qed.
+
+(* ================================================================== *)
+(* containers read back what their writers wrote                       *)
+(* ================================================================== *)
+
+Lemma bytes_eqb_refl : forall a, bytes_eqb a a = true.
+Proof. induction a as [|x a IH]; cbn [bytes_eqb]; [reflexivity|now rewrite N.eqb_refl, IH]. Qed.
+
+Lemma bytes_eqb_eq : forall a b, bytes_eqb a b = true -> a = b.
+Proof.
+  induction a as [|x a IH]; intros [|y b] H; cbn [bytes_eqb] in H; try discriminate; [reflexivity|].
+  apply andb_prop in H as [H1 H2]. apply N.eqb_eq in H1. subst. f_equal. now apply IH.
+Qed.
+
+Lemma prefix_of_app : forall a b, prefix_of a (a ++ b) = true.
+Proof. induction a as [|x a IH]; intros b; cbn [prefix_of app]; [reflexivity|now rewrite N.eqb_refl, IH]. Qed.
+
+Lemma match_nonempty : forall (l : bytes) A (a b : A), l <> [] -> match l with [] => a | _ :: _ => b end = b.
+Proof. intros [|x l] A a b H; [congruence|reflexivity]. Qed.
+
+Lemma ssh_string_enc_nonempty : forall s r, ssh_string_enc s ++ r <> [].
+Proof.
+  intros s r H. apply (f_equal (@length N)) in H. unfold ssh_string_enc in H.
+  rewrite !app_length, length_N_to_be in H. cbn in H. lia.
+Qed.
+
+Lemma length_ssh_string_enc : forall s, length (ssh_string_enc s) = (4 + length s)%nat.
+Proof. intros. unfold ssh_string_enc. now rewrite app_length, length_N_to_be. Qed.
+
+(* ---------- KDF options ---------- *)
+
+Lemma kdf_options_roundtrip : forall salt rounds pre post,
+  N.of_nat (length salt) < 4294967288 -> rounds < 4294967296 ->
+  parse_kdf_options true (pre ++ kdf_options_enc salt rounds ++ post)
+                    (length pre) (length (kdf_options_enc salt rounds)) = Ok (salt, rounds).
+Proof.
+  intros salt rounds pre post Hs Hr. unfold parse_kdf_options.
+  rewrite drop_app_length, take_app_length.
+  unfold kdf_options_enc, ssh_string_enc. rewrite !app_length, !length_N_to_be.
+  destruct (Nat.ltb (4 + length salt + 4) 8) eqn:E; [apply Nat.ltb_lt in E; lia|].
+  set (L := N_to_be 4 (N.of_nat (length salt))).
+  assert (HL : length L = 4%nat) by apply length_N_to_be.
+  rewrite <- app_assoc.
+  assert (Ht : take 4 (L ++ salt ++ N_to_be 4 rounds) = L) by (rewrite <- HL; apply take_app_length).
+  assert (Hd : drop 4 (L ++ salt ++ N_to_be 4 rounds) = salt ++ N_to_be 4 rounds) by (rewrite <- HL; apply drop_app_length).
+  rewrite Ht, Hd.
+  assert (Hv : be_to_N L = N.of_nat (length salt)) by (apply be_to_N_N_to_be; cbn; lia).
+  rewrite Hv.
+  destruct (N.of_nat (length salt) + 8 =? N.of_nat (4 + length salt + 4)) eqn:E2; [|apply N.eqb_neq in E2; lia].
+  cbn [negb].
+  replace (N.to_nat (4 + N.of_nat (length salt))) with (4 + length salt)%nat by lia.
+  replace (4 + length salt - 4)%nat with (length salt) by lia.
+  rewrite take_app_length.
+  rewrite drop_add, Hd, drop_app_length.
+  assert (H4 : take 4 (N_to_be 4 rounds) = N_to_be 4 rounds).
+  { rewrite <- (app_nil_r (N_to_be 4 rounds)) at 1.
+    replace 4%nat with (length (N_to_be 4 rounds)) at 1 by apply length_N_to_be. apply take_app_length. }
+  rewrite H4, be_to_N_N_to_be by (cbn; lia). reflexivity.
+Qed.
+
+(* ---------- OpenSSH private key header ---------- *)
+
+Lemma ossh_unmarshal_enc : forall cipher kdf opts pub priv,
+  fits32 cipher -> fits32 kdf -> fits32 opts -> fits32 pub -> fits32 priv ->
+  ossh_unmarshal (ssh_string_enc cipher ++ ssh_string_enc kdf ++ ssh_string_enc opts ++
+                  N_to_be 4 1 ++ ssh_string_enc pub ++ ssh_string_enc priv)
+  = Ok (mk_ossh cipher kdf (length (ssh_string_enc cipher) + length (ssh_string_enc kdf) + 4) (length opts) 1 pub priv).
+Proof.
+  intros cipher kdf opts pub priv Hc Hk Ho Hp Hv. unfold ossh_unmarshal.
+  rewrite match_nonempty by apply ssh_string_enc_nonempty.
+  rewrite ssh_read_string_enc by exact Hc. cbv beta iota.
+  rewrite ssh_read_string_enc by exact Hk. cbv beta iota.
+  rewrite ssh_read_string_enc by exact Ho. cbv beta iota.
+  rewrite ssh_read_u32_enc by lia. cbv beta iota.
+  rewrite ssh_read_string_enc by exact Hp. cbv beta iota.
+  rewrite ssh_read_string_enc_nil by exact Hv. cbv beta iota.
+  f_equal. f_equal. rewrite !app_length. lia.
+Qed.
+
+Lemma ossh_parse_plain : forall o kdf pub priv pk,
+  fits32 kdf -> fits32 pub -> fits32 priv -> ssh_parse_public o pub = Ok pk ->
+  parse_openssh_private all_fixed o (ossh_enc (bs "none") kdf [] pub priv)
+  = Ok (Info (bs "OpenSSH private key") (ssh_public_attrs true pk []) []).
+Proof.
+  intros o kdf pub priv pk Hkd Hp Hv Hk. unfold parse_openssh_private, ossh_enc.
+  rewrite prefix_of_app. cbn [negb]. rewrite drop_app_length.
+  rewrite ossh_unmarshal_enc; try assumption; try (apply fits32_small; cbn; lia).
+  cbn [bind oh_numkeys oh_pubkey oh_cipher]. rewrite N.eqb_refl. cbn [negb]. rewrite Hk.
+  change (bytes_eqb (bs "none") (bs "none")) with true. cbv beta iota. reflexivity.
+Qed.
+
+Lemma ossh_parse_encrypted : forall o cipher kdf salt rounds pub priv pk,
+  fits32 cipher -> fits32 kdf -> N.of_nat (length salt) < 4294967288 -> rounds < 4294967296 ->
+  fits32 pub -> fits32 priv -> bytes_eqb cipher (bs "none") = false ->
+  ssh_parse_public o pub = Ok pk ->
+  parse_openssh_private all_fixed o (ossh_enc cipher kdf (kdf_options_enc salt rounds) pub priv)
+  = Ok (Info (bs "OpenSSH private key (encrypted)")
+          (ssh_public_attrs true pk [] ++ [(bs "Cipher", cipher); (bs "KDF", kdf)] ++
+           [(bs "KDF rounds", dec_of_N rounds)]) []).
+Proof.
+  intros o cipher kdf salt rounds pub priv pk Hc Hk Hs Hr Hp Hv Hne Hpk.
+  assert (Ho : fits32 (kdf_options_enc salt rounds)).
+  { unfold fits32, kdf_options_enc. rewrite app_length, length_ssh_string_enc, length_N_to_be. lia. }
+  unfold parse_openssh_private, ossh_enc.
+  rewrite prefix_of_app. cbn [negb]. rewrite drop_app_length.
+  rewrite ossh_unmarshal_enc by assumption.
+  cbn [bind oh_numkeys oh_pubkey oh_cipher oh_kdf oh_opts_off oh_opts_len]. rewrite N.eqb_refl. cbn [negb].
+  rewrite Hpk, Hne. cbv beta iota. cbn [fx_kdf_opts fx_size all_fixed].
+  set (post := N_to_be 4 1 ++ ssh_string_enc pub ++ ssh_string_enc priv).
+  set (opts := kdf_options_enc salt rounds) in *.
+  replace (ssh_string_enc cipher ++ ssh_string_enc kdf ++ ssh_string_enc opts ++ post)
+    with ((ssh_string_enc cipher ++ ssh_string_enc kdf ++ N_to_be 4 (N.of_nat (length opts))) ++ opts ++ post)
+    by (unfold ssh_string_enc; now rewrite <- !app_assoc).
+  replace (length (ssh_string_enc cipher) + length (ssh_string_enc kdf) + 4)%nat
+    with (length (ssh_string_enc cipher ++ ssh_string_enc kdf ++ N_to_be 4 (N.of_nat (length opts))))
+    by (rewrite !app_length, length_N_to_be; lia).
+  unfold opts. rewrite kdf_options_roundtrip by assumption.
+  now rewrite <- app_assoc.
+Qed.
+
+(* ---------- PuTTY public blobs ---------- *)
+
+Lemma putty_unmarshal_rsa : forall e n, fits32 (mpint_enc e) -> fits32 (mpint_enc n) ->
+  putty_unmarshal_public (ssh_rsa_blob e n) = Ok (PuttyKey (bs "ssh-rsa") (PkRsa (Z.of_N n))).
+Proof.
+  intros e n He Hn. unfold putty_unmarshal_public, ssh_rsa_blob.
+  rewrite putty_read_enc by (apply fits32_small; cbn; lia).
+  change (bytes_eqb (bs "ssh-rsa") (bs "ssh-dss")) with false.
+  change (putty_curve_of_type (bs "ssh-rsa")) with (@None bytes).
+  change (bytes_eqb (bs "ssh-rsa") (bs "ssh-ed25519")) with false.
+  change (bytes_eqb (bs "ssh-rsa") (bs "ssh-ed448")) with false.
+  change (bytes_eqb (bs "ssh-rsa") (bs "ssh-rsa")) with true. cbv beta iota.
+  rewrite putty_read_enc by exact He. cbv beta iota.
+  rewrite putty_read_enc_nil by exact Hn. cbv beta iota.
+  now rewrite putty_mpint_roundtrip.
+Qed.
+
+Lemma putty_unmarshal_dss : forall p q g y,
+  fits32 (mpint_enc p) -> fits32 (mpint_enc q) -> fits32 (mpint_enc g) -> fits32 (mpint_enc y) ->
+  putty_unmarshal_public (ssh_dss_blob p q g y) = Ok (PuttyKey (bs "ssh-dss") (PkDsa (Z.of_N p))).
+Proof.
+  intros p q g y Hp Hq Hg Hy. unfold putty_unmarshal_public, ssh_dss_blob.
+  rewrite putty_read_enc by (apply fits32_small; cbn; lia).
+  change (bytes_eqb (bs "ssh-dss") (bs "ssh-dss")) with true. cbv beta iota.
+  rewrite putty_read_enc by exact Hp. cbv beta iota.
+  rewrite putty_read_enc by exact Hq. cbv beta iota.
+  rewrite putty_read_enc by exact Hg. cbv beta iota.
+  rewrite putty_read_enc_nil by exact Hy. cbv beta iota.
+  now rewrite putty_mpint_roundtrip.
+Qed.
+
+(* ---------- SSH1 private key file ---------- *)
+
+Lemma ssh1_read_string_enc : forall s rest, fits32 s ->
+  ssh1_read_string (ssh1_string_enc s ++ rest) = Ok (s, rest).
+Proof.
+  intros s rest H. unfold ssh1_read_string, ssh1_string_enc. rewrite <- app_assoc.
+  replace 4%nat with (length (N_to_be 4 (N.of_nat (length s)))) at 1 by apply length_N_to_be.
+  rewrite read_full_app. cbn [bind].
+  rewrite be_to_N_N_to_be by exact H. rewrite app_length.
+  destruct (N.of_nat (length s + length rest) <? N.of_nat (length s)) eqn:E; [apply N.ltb_lt in E; lia|].
+  rewrite Nat2N.id. apply read_full_app.
+Qed.
+
+Lemma read_full_4 : forall a b c d r, read_full 4 (a :: b :: c :: d :: r) = Ok ([a; b; c; d], r).
+Proof. reflexivity. Qed.
+
+Definition ssh1_sizes_ok (n e d qinv q p : N) (comment : bytes) : Prop :=
+  bitlen n < 65536 /\ bitlen e < 65536 /\ bitlen d < 65536 /\ bitlen qinv < 65536 /\
+  bitlen q < 65536 /\ bitlen p < 65536 /\ fits32 comment.
+
+Lemma ssh1_parse_enc : forall dec n e comment a b d qinv q p pad,
+  ssh1_sizes_ok n e d qinv q p comment ->
+  ssh1_parse dec (ssh1_enc 0 n e comment a b d qinv q p pad)
+  = Ok (S1Key (mk_ssh1 (be_min n) (be_min e) comment (be_min d) (be_min q) (be_min p))).
+Proof.
+  intros dec n e comment a b d qinv q p pad (Hn & He & Hd & Hqi & Hq & Hp & Hc).
+  unfold ssh1_parse, ssh1_enc.
+  rewrite app_length.
+  destruct (Nat.ltb (length ssh1_header + _) (length ssh1_header)) eqn:El; [apply Nat.ltb_lt in El; lia|].
+  unfold go_slice_to, go_slice_from. rewrite app_length, El. cbn [bind].
+  rewrite take_app_length, bytes_eqb_refl, drop_app_length. cbn [negb].
+  set (rest := ssh1_mpi_enc n ++ _).
+  replace ([0] ++ [0; 0; 0; 0] ++ N_to_be 4 (bitlen n) ++ rest)
+    with (([0] ++ [0; 0; 0; 0] ++ N_to_be 4 (bitlen n)) ++ rest) by now rewrite <- !app_assoc.
+  replace 9%nat with (length ([0] ++ [0; 0; 0; 0] ++ N_to_be 4 (bitlen n)))
+    by (rewrite !app_length, length_N_to_be; reflexivity).
+  rewrite read_full_app. cbn [bind app nth]. unfold rest.
+  rewrite ssh1_read_mpint_raw_enc by exact Hn. cbn [bind].
+  rewrite ssh1_read_mpint_raw_enc by exact He. cbn [bind].
+  rewrite ssh1_read_string_enc by exact Hc. cbn [bind].
+  change (0 =? 3) with false. cbv beta iota.
+  change ([a; b; a; b] ++ ssh1_mpi_enc d ++ ssh1_mpi_enc qinv ++ ssh1_mpi_enc q ++ ssh1_mpi_enc p ++ pad)
+    with (a :: b :: a :: b :: ssh1_mpi_enc d ++ ssh1_mpi_enc qinv ++ ssh1_mpi_enc q ++ ssh1_mpi_enc p ++ pad).
+  cbn [bind]. rewrite read_full_4. cbn [nth].
+  rewrite !N.eqb_refl. cbn [andb negb].
+  rewrite ssh1_read_mpint_raw_enc by exact Hd. cbn [bind].
+  rewrite ssh1_read_mpint_raw_enc by exact Hqi. cbn [bind].
+  rewrite ssh1_read_mpint_raw_enc by exact Hq. cbn [bind].
+  rewrite ssh1_read_mpint_raw_enc by exact Hp. cbn [bind].
+  reflexivity.
+Qed.
+
+(* ================================================================== *)
+(* keys, containers, and what a description must say                   *)
+(* ================================================================== *)
+
+Inductive curve : Type := P224 | P256 | P384 | P521.
+
+(* constants typed from SEC 2 / RFC 5480 (OIDs), FIPS 186 (names), RFC 5656 (SSH identifiers) *)
+Definition curve_oid (c : curve) : list N :=
+  match c with
+  | P224 => [1; 3; 132; 0; 33] | P256 => [1; 2; 840; 10045; 3; 1; 7]
+  | P384 => [1; 3; 132; 0; 34] | P521 => [1; 3; 132; 0; 35]
+  end.
+Definition curve_nist (c : curve) : bytes :=
+  match c with P224 => bs "P-224" | P256 => bs "P-256" | P384 => bs "P-384" | P521 => bs "P-521" end.
+Definition curve_nid (c : curve) : option bytes :=
+  match c with P224 => None | P256 => Some (bs "nistp256") | P384 => Some (bs "nistp384") | P521 => Some (bs "nistp521") end.
+(* how the tool names the curve (the NIST name followed by its aliases) *)
+Definition curve_shown (c : curve) : bytes :=
+  match c with
+  | P224 => bs "P-224 (secp224r1)" | P256 => bs "P-256 (secp256r1, prime256v1)"
+  | P384 => bs "P-384 (secp384r1)" | P521 => bs "P-521 (secp521r1)"
+  end.
+
+Inductive key : Type :=
+| KRsa (n e : N)
+| KDsa (p q g y : N)
+| KEc (c : curve) (point : bytes)
+| KEd25519 (pk : bytes)
+| KEd448 (pk : bytes)
+| KX25519 (pk : bytes)
+| KX448 (pk : bytes).
+
+Inductive container : Type :=
+| CPkcs1Pub | CPkcs1Priv | CDsaPriv | CSec1 | CSpki | CPkcs8
+| CSshPublic | COpenSshPrivate | CPutty | CSsh1.
+
+(* everything else a container stores next to the key: labels, comments, encryption
+   parameters, and the private half (which must not influence the description) *)
+Record meta := mk_meta {
+  m_comment : bytes;
+  m_cipher : bytes; m_kdf : bytes; m_salt : bytes; m_rounds : N;       (* OpenSSH; cipher "none" = in the clear *)
+  m_private : bytes;                                                    (* OpenSSH private block *)
+  m_ppk_version : Z; m_ppk_encryption : bytes; m_ppk_kdf : bytes;
+  m_ppk_memory : Z; m_ppk_passes : Z; m_ppk_parallelism : Z;
+  m_check_a : N; m_check_b : N; m_d : N; m_qinv : N; m_q : N; m_p : N; m_pad : bytes   (* SSH1 private half *)
+}.
+
+(* the public key blob of RFC 4253 / 5656 / 8709 (PuTTY uses the same blobs) *)
+Definition blob_of (k : key) : option bytes :=
+  match k with
+  | KRsa n e => Some (ssh_rsa_blob e n)
+  | KDsa p q g y => Some (ssh_dss_blob p q g y)
+  | KEc c pt => match curve_nid c with Some nid => Some (ssh_ecdsa_blob nid pt) | None => None end
+  | KEd25519 pk => Some (ssh_ed25519_blob pk)
+  | KEd448 pk => Some (ssh_ed448_blob pk)
+  | _ => None
+  end.
+Definition ssh_type_of (k : key) : bytes :=
+  match k with
+  | KRsa _ _ => bs "ssh-rsa" | KDsa _ _ _ _ => bs "ssh-dss"
+  | KEc c _ => bs "ecdsa-sha2-" ++ match curve_nid c with Some nid => nid | None => [] end
+  | KEd25519 _ => bs "ssh-ed25519" | KEd448 _ => bs "ssh-ed448" | _ => []
+  end.
+
+Definition kdf_opts_of (m : meta) : bytes :=
+  if bytes_eqb (m_cipher m) (bs "none") then [] else kdf_options_enc (m_salt m) (m_rounds m).
+
+(* The description the model of the repaired code gives for key k stored in container c with
+   metadata m.  For the DER containers asn1.Unmarshal is the library's: its answer on the
+   encoding of k is the content octets der_int_enc of the INTEGER asked for, the OID arcs and
+   the nested parameters; for the wire containers the bytes written by the writers of Model/Keys.v
+   are read back by the modelled readers; lib answers what elliptic.Unmarshal says about a point. *)
+Definition describe_fx (fx : fixes) (lib : ssh_oracle) (dec : bytes -> bytes) (c : container) (k : key) (m : meta) : result info :=
+  let no_ec : result ecparams := Err "asn1" in
+  match c, k with
+  | CPkcs1Pub, KRsa n _ => parse_pkcs1_public (Some (der_int_enc n))
+  | CPkcs1Priv, KRsa n _ => parse_pkcs1_private (Some (der_int_enc n))
+  | CDsaPriv, KDsa p _ _ _ => parse_dsa_private (Some (der_int_enc p))
+  | CSec1, KEc cv _ => with_desc "EC private key" (ec_private_attrs (curve_oid cv) [] None None (Ok []))
+  | CSpki, KRsa n _ => with_desc "PKIX public key" (pkix_attrs [1; 2; 840; 113549; 1; 1; 1] None (Some (der_int_enc n)) no_ec)
+  | CSpki, KDsa p _ _ _ => with_desc "PKIX public key" (pkix_attrs [1; 2; 840; 10040; 4; 1] (Some (der_int_enc p)) None no_ec)
+  | CSpki, KEc cv _ => with_desc "PKIX public key" (pkix_attrs [1; 2; 840; 10045; 2; 1] None None (Ok (EcNamed (curve_oid cv))))
+  | CSpki, KEd25519 _ => with_desc "PKIX public key" (pkix_attrs [1; 3; 101; 112] None None no_ec)
+  | CSpki, KEd448 _ => with_desc "PKIX public key" (pkix_attrs [1; 3; 101; 113] None None no_ec)
+  | CSpki, KX25519 _ => with_desc "PKIX public key" (pkix_attrs [1; 3; 101; 110] None None no_ec)
+  | CSpki, KX448 _ => with_desc "PKIX public key" (pkix_attrs [1; 3; 101; 111] None None no_ec)
+  | CPkcs8, KRsa n _ => with_desc "PKCS#8 private key" (pkcs8_attrs [1; 2; 840; 113549; 1; 1; 1] None (Some (der_int_enc n)) no_ec)
+  | CPkcs8, KDsa p _ _ _ => with_desc "PKCS#8 private key" (pkcs8_attrs [1; 2; 840; 10040; 4; 1] (Some (der_int_enc p)) None no_ec)
+  | CPkcs8, KEc cv _ => with_desc "PKCS#8 private key" (pkcs8_attrs [1; 2; 840; 10045; 2; 1] None None (Ok (EcNamed (curve_oid cv))))
+  | CPkcs8, KEd25519 _ => with_desc "PKCS#8 private key" (pkcs8_attrs [1; 3; 101; 112] None None no_ec)
+  | CPkcs8, KEd448 _ => with_desc "PKCS#8 private key" (pkcs8_attrs [1; 3; 101; 113] None None no_ec)
+  | CPkcs8, KX25519 _ => with_desc "PKCS#8 private key" (pkcs8_attrs [1; 3; 101; 110] None None no_ec)
+  | CPkcs8, KX448 _ => with_desc "PKCS#8 private key" (pkcs8_attrs [1; 3; 101; 111] None None no_ec)
+  | CSshPublic, _ =>
+      match blob_of k with
+      | Some b => let* pk := ssh_parse_public lib b in
+                  Ok (Info (bs "SSH public key") (ssh_public_attrs (fx_size fx) pk (m_comment m)) [])
+      | None => Err "not an SSH key"
+      end
+  | COpenSshPrivate, _ =>
+      match blob_of k with
+      | Some b => parse_openssh_private fx lib (ossh_enc (m_cipher m) (m_kdf m) (kdf_opts_of m) b (m_private m))
+      | None => Err "not an SSH key"
+      end
+  | CPutty, _ =>
+      match blob_of k with
+      | Some b => putty_ppk fx (Some (mk_ppk (m_ppk_version m) (ssh_type_of k) (m_ppk_encryption m) (m_comment m) b
+                                               (m_ppk_kdf m) (m_ppk_memory m) (m_ppk_passes m) (m_ppk_parallelism m)))
+      | None => Err "not an SSH key"
+      end
+  | CSsh1, KRsa n e =>
+      ssh1_private_key fx dec
+        (ssh1_enc 0 n e (m_comment m) (m_check_a m) (m_check_b m) (m_d m) (m_qinv m) (m_q m) (m_p m) (m_pad m))
+  | _, _ => Err "this container does not carry this kind of key"
+  end.
+
+(* the repaired code; describe_fx none_fixed is the code as found *)
+Definition describe := describe_fx all_fixed.
+
+(* which container carries which key (OpenSSH: FIPS 186-2 DSA only, the three RFC 5656 curves, no Ed448) *)
+Definition ssh_key (k : key) : bool :=
+  match k with
+  | KRsa _ _ => true | KDsa p _ _ _ => bitlen p =? 1024
+  | KEc c _ => match c with P224 => false | _ => true end
+  | KEd25519 pk => Nat.eqb (length pk) 32 | _ => false
+  end.
+Definition putty_key_kind (k : key) : bool :=
+  match k with
+  | KRsa _ _ | KDsa _ _ _ _ | KEd25519 _ | KEd448 _ => true
+  | KEc c _ => match c with P224 => false | _ => true end
+  | _ => false
+  end.
+Definition carries (c : container) (k : key) : bool :=
+  match c, k with
+  | CPkcs1Pub, KRsa _ _ | CPkcs1Priv, KRsa _ _ | CDsaPriv, KDsa _ _ _ _ | CSec1, KEc _ _ | CSsh1, KRsa _ _ => true
+  | CSpki, _ | CPkcs8, _ => true
+  | CSshPublic, _ | COpenSshPrivate, _ => ssh_key k
+  | CPutty, _ => putty_key_kind k
+  | _, _ => false
+  end.
+
+(* the format limits: 32-bit string lengths, 16-bit MPI bit counts, exponent range of ssh-rsa *)
+Definition small (n : N) : Prop := bitlen n < 17179869184.
+Definition key_fits_ssh (k : key) : Prop :=
+  match k with
+  | KRsa n e => small n /\ small e
+  | KDsa p q g y => small p /\ small q /\ small g /\ small y
+  | KEc _ pt => fits32 pt
+  | KEd25519 pk | KEd448 pk => fits32 pk
+  | _ => True
+  end.
+Definition fits (c : container) (k : key) (m : meta) : Prop :=
+  match c with
+  | CSshPublic => key_fits_ssh k /\ match k with KRsa _ e => e_ok e | _ => True end
+  | COpenSshPrivate =>
+      key_fits_ssh k /\ match k with KRsa _ e => e_ok e | _ => True end /\
+      fits32 (m_cipher m) /\ fits32 (m_kdf m) /\ N.of_nat (length (m_salt m)) < 4294967288 /\
+      m_rounds m < 4294967296 /\ fits32 (m_private m) /\
+      match blob_of k with Some b => fits32 b | None => True end
+  | CPutty => key_fits_ssh k
+  | CSsh1 => match k with KRsa n e => ssh1_sizes_ok n e (m_d m) (m_qinv m) (m_q m) (m_p m) (m_comment m) | _ => True end
+  | _ => True
+  end.
+
+(* what must be reported, typed from the property: algorithm, size in bits, curve *)
+Definition expected_algorithm (k : key) : bytes :=
+  match k with
+  | KRsa _ _ => bs "RSA" | KDsa _ _ _ _ => bs "DSA" | KEc _ _ => bs "ECDSA"
+  | KEd25519 _ | KEd448 _ => bs "EdDSA" | KX25519 _ | KX448 _ => bs "ECDH"
+  end.
+Definition expected_size (k : key) : option bytes :=
+  match k with
+  | KRsa n _ => Some (bits_value (bitlen n))
+  | KDsa p _ _ _ => Some (bits_value (bitlen p))
+  | _ => None
+  end.
+Definition expected_curve (k : key) : option bytes :=
+  match k with
+  | KEc c _ => Some (curve_shown c)
+  | KEd25519 _ => Some (bs "Ed25519") | KEd448 _ => Some (bs "Ed448")
+  | KX25519 _ => Some (bs "X25519") | KX448 _ => Some (bs "X448")
+  | _ => None
+  end.
+
+Fixpoint lookup_attr (name : bytes) (l : list attr) : option bytes :=
+  match l with
+  | [] => None
+  | (n, v) :: r => if bytes_eqb n name then Some v else lookup_attr name r
+  end.
+Definition attr_of (name : string) (r : result info) : option bytes :=
+  match r with Ok i => lookup_attr (bs name) (i_attrs i) | _ => None end.
+Arguments attr_of name%string r.
+Definition key_facts (r : result info) : option bytes * option bytes * option bytes :=
+  (attr_of "Algorithm" r, attr_of "Size" r, attr_of "Curve" r).
+
+(* ---------- looking attributes up ---------- *)
+
+Definition is_fact_name (n : bytes) : bool :=
+  bytes_eqb n (bs "Algorithm") || bytes_eqb n (bs "Size") || bytes_eqb n (bs "Curve").
+Definition irrelevant (l : list attr) : bool := forallb (fun nv => negb (is_fact_name (fst nv))) l.
+Definition facts_of_attrs (l : list attr) : option bytes * option bytes * option bytes :=
+  (lookup_attr (bs "Algorithm") l, lookup_attr (bs "Size") l, lookup_attr (bs "Curve") l).
+
+Lemma lookup_app : forall n a b,
+  lookup_attr n (a ++ b) = match lookup_attr n a with Some v => Some v | None => lookup_attr n b end.
+Proof.
+  induction a as [|[n' v] a IH]; intros b; cbn [app lookup_attr]; [reflexivity|].
+  destruct (bytes_eqb n' n); [reflexivity|apply IH].
+Qed.
+
+Lemma lookup_irrelevant : forall n l, irrelevant l = true -> is_fact_name n = true -> lookup_attr n l = None.
+Proof.
+  induction l as [|[n' v] l IH]; intros Hl Hn; cbn [lookup_attr]; [reflexivity|].
+  cbn [irrelevant forallb fst] in Hl. apply andb_prop in Hl as [H1 H2].
+  destruct (bytes_eqb n' n) eqn:E.
+  - apply bytes_eqb_eq in E. subst. rewrite Hn in H1. discriminate.
+  - now apply IH.
+Qed.
+
+Lemma facts_sandwich : forall pre mid post, irrelevant pre = true -> irrelevant post = true ->
+  facts_of_attrs (pre ++ mid ++ post) = facts_of_attrs mid.
+Proof.
+  intros pre mid post Hpre Hpost. unfold facts_of_attrs.
+  rewrite !lookup_app.
+  rewrite !(lookup_irrelevant _ pre), !(lookup_irrelevant _ post) by (assumption || reflexivity).
+  destruct (lookup_attr (bs "Algorithm") mid), (lookup_attr (bs "Size") mid), (lookup_attr (bs "Curve") mid); reflexivity.
+Qed.
+
+Lemma key_facts_ok : forall d a c, key_facts (Ok (Info d a c)) = facts_of_attrs a.
+Proof. reflexivity. Qed.
+
+Lemma irrelevant_comment : forall c : bytes,
+  irrelevant (match c with [] => [] | _ :: _ => [(bs "Comment", c)] end) = true.
+Proof. intros [|x c]; reflexivity. Qed.
+
+(* ---------- T1: the regenerated tables say what FIPS 186 / RFC 5480 / RFC 8410 say ---------- *)
+
+Lemma tables_ok :
+  name_rsa = bs "RSA" /\ name_dsa = bs "DSA" /\ name_ecdsa = bs "ECDSA" /\ name_eddsa = bs "EdDSA" /\ name_ecdh = bs "ECDH"
+  /\ oid_rsa = [1; 2; 840; 113549; 1; 1; 1] /\ oid_dsa = [1; 2; 840; 10040; 4; 1]
+  /\ oid_ec_public_key = [1; 2; 840; 10045; 2; 1]
+  /\ oid_ed25519 = [1; 3; 101; 112] /\ oid_ed448 = [1; 3; 101; 113]
+  /\ oid_x25519 = [1; 3; 101; 110] /\ oid_x448 = [1; 3; 101; 111]
+  /\ forallb (fun c => bytes_eqb (curve_name_from_oid (curve_oid c)) (curve_shown c)
+                       && bytes_eqb (from_curve_params (curve_nist c)) (curve_shown c)) [P224; P256; P384; P521] = true
+  /\ names_curve (bs "Ed25519") = bs "Ed25519" /\ names_curve (bs "Ed448") = bs "Ed448"
+  /\ names_curve (bs "X25519") = bs "X25519" /\ names_curve (bs "X448") = bs "X448".
+Proof. repeat split; vm_compute; reflexivity. Qed.
+
+Lemma curve_from_oid_shown : forall c, curve_name_from_oid (curve_oid c) = curve_shown c.
+Proof. intros []; vm_compute; reflexivity. Qed.
+Lemma curve_from_params_shown : forall c, from_curve_params (curve_nist c) = curve_shown c.
+Proof. intros []; vm_compute; reflexivity. Qed.
+
+(* ---------- the attributes cryptoPublicKeyAttributes yields for a key ---------- *)
+
+Definition key_attrs (k : key) : list attr :=
+  match k with
+  | KRsa n _ => rsa_public_attrs true (Z.of_N n)
+  | KDsa p _ _ _ => dsa_attrs (Z.of_N p)
+  | KEc c _ => ecdsa_public_attrs (curve_nist c)
+  | KEd25519 _ => ed25519_attrs
+  | KEd448 _ => ed448_attrs
+  | KX25519 _ => x25519_attrs
+  | KX448 _ => x448_attrs
+  end.
+
+Lemma facts_key_attrs : forall k,
+  facts_of_attrs (key_attrs k) = (Some (expected_algorithm k), expected_size k, expected_curve k).
+Proof.
+  intros [n e|p q g y|c pt|pk|pk|pk|pk]; unfold key_attrs, facts_of_attrs.
+  - unfold rsa_public_attrs. rewrite zbitlen_of_N. reflexivity.
+  - unfold dsa_attrs. rewrite zbitlen_of_N. reflexivity.
+  - unfold ecdsa_public_attrs. rewrite curve_from_params_shown. reflexivity.
+  - reflexivity.
+  - reflexivity.
+  - reflexivity.
+  - reflexivity.
+Qed.
+
+(* evaluate comparisons of literal strings *)
+Ltac eval_eqb :=
+  repeat match goal with
+  | |- context [bytes_eqb ?a ?b] =>
+      let v := eval vm_compute in (bytes_eqb a b) in
+      match v with
+      | true => change (bytes_eqb a b) with true
+      | false => change (bytes_eqb a b) with false
+      end
+  end; cbv beta iota; cbn [orb andb negb].
+
+Lemma ssh_parse_ecdsa_blob : forall lib c nid pt, curve_nid c = Some nid -> fits32 pt -> so_accepted lib = true ->
+  ssh_parse_public lib (ssh_ecdsa_blob nid pt)
+  = Ok (mk_sshkey (bs "ecdsa-sha2-" ++ nid) (Some (PkEcdsa (curve_nist c)))).
+Proof.
+  intros lib c nid pt Hc Hpt Hacc. unfold ssh_parse_public, ssh_ecdsa_blob.
+  destruct c; cbn [curve_nid] in Hc; inversion Hc; subst nid; clear Hc;
+    (rewrite ssh_read_string_enc by (apply fits32_small; cbn; lia); eval_eqb;
+     rewrite ssh_read_string_enc by (apply fits32_small; cbn; lia); cbv beta iota;
+     rewrite ssh_read_string_enc_nil by exact Hpt; cbv beta iota;
+     unfold nist_of_curve; eval_eqb; rewrite Hacc; reflexivity).
+Qed.
+
+Lemma ssh_parse_key : forall lib k b,
+  ssh_key k = true -> key_fits_ssh k -> match k with KRsa _ e => e_ok e | _ => True end ->
+  so_accepted lib = true -> blob_of k = Some b ->
+  exists pk, ssh_parse_public lib b = Ok (mk_sshkey (ssh_type_of k) (Some pk))
+             /\ crypto_public_attrs true pk = key_attrs k.
+Proof.
+  intros lib k b Hk Hf He Hacc Hb. destruct k as [n e|p q g y|c pt|pk|pk|pk|pk]; cbn [ssh_key] in Hk; try discriminate;
+    cbn [blob_of] in Hb; cbn [key_fits_ssh] in Hf.
+  - inversion Hb; subst b. exists (PkRsa (Z.of_N n)). split; [|reflexivity].
+    apply ssh_parse_rsa_blob; [exact He|]. apply fits32_mpint, Hf.
+  - inversion Hb; subst b. exists (PkDsa (Z.of_N p)). split; [|reflexivity].
+    destruct Hf as (Hp & Hq & Hg & Hy). apply N.eqb_eq in Hk.
+    apply ssh_parse_dss_blob; try assumption; now apply fits32_mpint.
+  - destruct (curve_nid c) as [nid|] eqn:En; [|discriminate]. inversion Hb; subst b.
+    exists (PkEcdsa (curve_nist c)). split; [|reflexivity].
+    cbn [ssh_type_of]. rewrite En. now apply ssh_parse_ecdsa_blob.
+  - inversion Hb; subst b. exists PkEd25519. split; [|reflexivity].
+    apply ssh_parse_ed25519_blob. now apply Nat.eqb_eq.
+Qed.
+
+Lemma putty_unmarshal_ecdsa : forall c nid pt, curve_nid c = Some nid -> fits32 pt ->
+  putty_unmarshal_public (ssh_ecdsa_blob nid pt) = Ok (PuttyKey (bs "ecdsa-sha2-" ++ nid) (PkEcdsa (curve_nist c))).
+Proof.
+  intros c nid pt Hc Hpt. unfold putty_unmarshal_public, ssh_ecdsa_blob.
+  destruct c; cbn [curve_nid] in Hc; inversion Hc; subst nid; clear Hc;
+    (rewrite putty_read_enc by (apply fits32_small; cbn; lia); eval_eqb;
+     unfold putty_curve_of_type; eval_eqb;
+     rewrite putty_read_enc by (apply fits32_small; cbn; lia); cbv beta iota;
+     match goal with |- context [go_curve_name ?s] =>
+       let v := eval vm_compute in (go_curve_name s) in change (go_curve_name s) with v end;
+     eval_eqb;
+     rewrite putty_read_enc_nil by exact Hpt; reflexivity).
+Qed.
+
+Lemma putty_unmarshal_ed25519 : forall pk, fits32 pk ->
+  putty_unmarshal_public (ssh_ed25519_blob pk) = Ok (PuttyKey (bs "ssh-ed25519") PkEd25519).
+Proof.
+  intros pk H. unfold putty_unmarshal_public, ssh_ed25519_blob.
+  rewrite putty_read_enc by (apply fits32_small; cbn; lia). eval_eqb.
+  unfold putty_curve_of_type. eval_eqb.
+  rewrite putty_read_enc_nil by exact H. reflexivity.
+Qed.
+
+Lemma putty_unmarshal_ed448 : forall pk, fits32 pk ->
+  putty_unmarshal_public (ssh_ed448_blob pk) = Ok (PuttyEd448 (bs "ssh-ed448")).
+Proof.
+  intros pk H. unfold putty_unmarshal_public, ssh_ed448_blob.
+  rewrite putty_read_enc by (apply fits32_small; cbn; lia). eval_eqb.
+  unfold putty_curve_of_type. eval_eqb.
+  rewrite putty_read_enc_nil by exact H. reflexivity.
+Qed.
+
+Lemma putty_unmarshal_key : forall k b comment,
+  putty_key_kind k = true -> key_fits_ssh k -> blob_of k = Some b ->
+  exists pkk, putty_unmarshal_public b = Ok pkk
+              /\ putty_public_attrs true pkk comment
+                 = (bs "Type", ssh_type_of k) :: match comment with [] => [] | _ :: _ => [(bs "Comment", comment)] end ++ key_attrs k.
+Proof.
+  intros k b comment Hk Hf Hb. destruct k as [n e|p q g y|c pt|pk|pk|pk|pk]; cbn [putty_key_kind] in Hk; try discriminate;
+    cbn [blob_of] in Hb; cbn [key_fits_ssh] in Hf.
+  - inversion Hb; subst b. eexists. split; [apply putty_unmarshal_rsa; apply fits32_mpint; apply Hf|reflexivity].
+  - inversion Hb; subst b. destruct Hf as (Hp & Hq & Hg & Hy).
+    eexists. split; [apply putty_unmarshal_dss; now apply fits32_mpint|reflexivity].
+  - destruct (curve_nid c) as [nid|] eqn:En; [|destruct c; discriminate]. inversion Hb; subst b.
+    eexists. split; [apply (putty_unmarshal_ecdsa c); assumption|]. cbn [ssh_type_of]. rewrite En. reflexivity.
+  - inversion Hb; subst b. eexists. split; [now apply putty_unmarshal_ed25519|reflexivity].
+  - inversion Hb; subst b. eexists. split; [now apply putty_unmarshal_ed448|reflexivity].
+Qed.
+
+(* ================================================================== *)
+(* the key facts are exact in every container                          *)
+(* ================================================================== *)
+
+Ltac eval_oid :=
+  repeat match goal with
+  | |- context [oid_eqb ?a ?b] =>
+      let v := eval vm_compute in (oid_eqb a b) in
+      match v with
+      | true => change (oid_eqb a b) with true
+      | false => change (oid_eqb a b) with false
+      end
+  end; cbv beta iota.
+
+Lemma facts_ssh_public_attrs : forall t pk comment post k,
+  crypto_public_attrs true pk = key_attrs k -> irrelevant post = true ->
+  facts_of_attrs (ssh_public_attrs true (mk_sshkey t (Some pk)) comment ++ post) = facts_of_attrs (key_attrs k).
+Proof.
+  intros t pk comment post k Hk Hpost. unfold ssh_public_attrs. cbn [sk_type sk_key]. rewrite Hk.
+  rewrite <- app_comm_cons, <- app_assoc, app_comm_cons.
+  apply facts_sandwich; [|exact Hpost].
+  cbn [irrelevant forallb fst]. fold (irrelevant (match comment with [] => [] | _ :: _ => [(bs "Comment", comment)] end)).
+  now rewrite irrelevant_comment.
+Qed.
+
+(* the whole description: container label, the container's own metadata as stored, the key facts *)
+Definition comment_attr (c : bytes) : list attr := match c with [] => [] | _ :: _ => [(bs "Comment", c)] end.
+
+Definition description_of (c : container) (m : meta) : bytes :=
+  match c with
+  | CPkcs1Pub => bs "PKCS#1 public key" | CPkcs1Priv => bs "PKCS#1 private key"
+  | CDsaPriv => bs "DSA private key" | CSec1 => bs "EC private key"
+  | CSpki => bs "PKIX public key" | CPkcs8 => bs "PKCS#8 private key"
+  | CSshPublic => bs "SSH public key"
+  | COpenSshPrivate => if bytes_eqb (m_cipher m) (bs "none") then bs "OpenSSH private key"
+                       else bs "OpenSSH private key (encrypted)"
+  | CPutty => bs "puTTY private key (version " ++ dec_of_Z (m_ppk_version m) ++ bs ")"
+  | CSsh1 => bs "SSH v1 key"
+  end.
+
+Definition meta_before (c : container) (k : key) (m : meta) : list attr :=
+  match c with
+  | CSshPublic | CPutty => (bs "Type", ssh_type_of k) :: comment_attr (m_comment m)
+  | COpenSshPrivate => [(bs "Type", ssh_type_of k)]
+  | CSsh1 => comment_attr (m_comment m)
+  | _ => []
+  end.
+
+Definition ppk_kdf_value (m : meta) : bytes :=
+  m_ppk_kdf m ++ bs " (" ++ dec_of_Z (m_ppk_passes m) ++ bs " passes, " ++ dec_of_Z (m_ppk_memory m) ++ bs " KiB" ++
+  bs ", parallelism: " ++ dec_of_Z (m_ppk_parallelism m) ++ bs ")".
+
+Definition meta_after (c : container) (m : meta) : list attr :=
+  match c with
+  | COpenSshPrivate =>
+      if bytes_eqb (m_cipher m) (bs "none") then []
+      else [(bs "Cipher", m_cipher m); (bs "KDF", m_kdf m); (bs "KDF rounds", dec_of_N (m_rounds m))]
+  | CPutty =>
+      (bs "Encryption", m_ppk_encryption m) ::
+      if negb (bytes_eqb (m_ppk_encryption m) (bs "none")) && negb (bytes_eqb (m_ppk_kdf m) [])
+      then [(bs "KDF", ppk_kdf_value m)] else []
+  | _ => []
+  end.
+
+Definition expected_info (c : container) (k : key) (m : meta) : info :=
+  Info (description_of c m) (meta_before c k m ++ key_attrs k ++ meta_after c m) [].
+
+Lemma ssh_public_attrs_shape : forall t pk comment k, crypto_public_attrs true pk = key_attrs k ->
+  ssh_public_attrs true (mk_sshkey t (Some pk)) comment = (bs "Type", t) :: comment_attr comment ++ key_attrs k.
+Proof. intros t pk comment k H. unfold ssh_public_attrs, comment_attr. cbn [sk_type sk_key]. now rewrite H. Qed.
+
+(* the master statement: for every key, every container that carries it and all metadata within
+   the formats' limits, the description is exactly: label, stored metadata, key facts *)
+Lemma describe_exact : forall lib dec c k m,
+  carries c k = true -> fits c k m -> so_accepted lib = true ->
+  describe lib dec c k m = Ok (expected_info c k m).
+Proof.
+  intros lib dec c k m Hc Hf Hacc. unfold expected_info.
+  destruct c.
+  - (* PKCS#1 public *)
+    destruct k; try discriminate. unfold describe; cbn [describe_fx]. unfold parse_pkcs1_public, pkcs1_attrs.
+    rewrite twos_der_int_enc. reflexivity.
+  - destruct k; try discriminate. unfold describe; cbn [describe_fx]. unfold parse_pkcs1_private, pkcs1_attrs.
+    rewrite twos_der_int_enc. reflexivity.
+  - destruct k; try discriminate. unfold describe; cbn [describe_fx]. unfold parse_dsa_private.
+    rewrite twos_der_int_enc. reflexivity.
+  - (* SEC1 *)
+    destruct k as [| |cv pt| | | |]; try discriminate. unfold describe; cbn [describe_fx]. unfold with_desc, ec_private_attrs.
+    destruct cv; cbn [curve_oid bind]; unfold named_curve_attrs; cbn [meta_before meta_after key_attrs app];
+      unfold ecdsa_public_attrs; rewrite curve_from_params_shown; vm_compute; reflexivity.
+  - (* SubjectPublicKeyInfo *)
+    destruct k as [n e|p q g y|cv pt|pk|pk|pk|pk]; unfold describe; cbn [describe_fx]; unfold with_desc, pkix_attrs; eval_oid; cbn [bind].
+    + rewrite twos_der_int_enc. reflexivity.
+    + rewrite twos_der_int_enc. reflexivity.
+    + unfold ec_parameters_attrs, attrs_or_none. cbn [bind].
+      unfold named_curve_attrs. cbn [meta_before meta_after key_attrs app]. unfold ecdsa_public_attrs.
+      now rewrite curve_from_oid_shown, curve_from_params_shown, app_nil_r.
+    + reflexivity.
+    + reflexivity.
+    + reflexivity.
+    + reflexivity.
+  - (* PKCS#8 *)
+    destruct k as [n e|p q g y|cv pt|pk|pk|pk|pk]; unfold describe; cbn [describe_fx]; unfold with_desc, pkcs8_attrs; eval_oid; cbn [bind].
+    + rewrite twos_der_int_enc. reflexivity.
+    + rewrite twos_der_int_enc. reflexivity.
+    + unfold ec_parameters_attrs, attrs_or_none. cbn [bind].
+      unfold named_curve_attrs. cbn [meta_before meta_after key_attrs app]. unfold ecdsa_public_attrs.
+      now rewrite curve_from_oid_shown, curve_from_params_shown, app_nil_r.
+    + reflexivity.
+    + reflexivity.
+    + reflexivity.
+    + reflexivity.
+  - (* OpenSSH public key *)
+    cbn [carries] in Hc. cbn [fits] in Hf. destruct Hf as [Hf He].
+    unfold describe, describe_fx. cbn [fx_size all_fixed]. destruct (blob_of k) as [b|] eqn:Eb.
+    2:{ destruct k; cbn [ssh_key] in Hc; try discriminate. cbn [blob_of] in Eb. destruct c; cbn in *; discriminate. }
+    destruct (ssh_parse_key lib k b Hc Hf He Hacc Eb) as [pk [Hp Ha]].
+    rewrite Hp. cbn [bind]. rewrite (ssh_public_attrs_shape _ _ _ _ Ha).
+    cbn [description_of meta_before meta_after]. now rewrite app_nil_r.
+  - (* OpenSSH private key *)
+    cbn [carries] in Hc. cbn [fits] in Hf. destruct Hf as (Hf & He & Hci & Hkd & Hsalt & Hr & Hpriv & Hb).
+    unfold describe, describe_fx. cbn [fx_size all_fixed]. destruct (blob_of k) as [b|] eqn:Eb.
+    2:{ destruct k; cbn [ssh_key] in Hc; try discriminate. cbn [blob_of] in Eb. destruct c; cbn in *; discriminate. }
+    destruct (ssh_parse_key lib k b Hc Hf He Hacc Eb) as [pk [Hp Ha]].
+    unfold kdf_opts_of. cbn [description_of meta_before meta_after].
+    destruct (bytes_eqb (m_cipher m) (bs "none")) eqn:En.
+    + apply bytes_eqb_eq in En. rewrite En.
+      rewrite (ossh_parse_plain lib (m_kdf m) b (m_private m) _ Hkd Hb Hpriv Hp).
+      rewrite (ssh_public_attrs_shape _ _ _ _ Ha). cbn [comment_attr app]. now rewrite app_nil_r.
+    + rewrite (ossh_parse_encrypted lib _ _ _ _ b _ _ Hci Hkd Hsalt Hr Hb Hpriv En Hp).
+      rewrite (ssh_public_attrs_shape _ _ _ _ Ha). cbn [comment_attr app]. reflexivity.
+  - (* PuTTY *)
+    cbn [carries] in Hc. cbn [fits] in Hf.
+    unfold describe, describe_fx. cbn [fx_size all_fixed]. destruct (blob_of k) as [b|] eqn:Eb.
+    2:{ destruct k; cbn [putty_key_kind] in Hc; try discriminate. cbn [blob_of] in Eb. destruct c; cbn in *; discriminate. }
+    destruct (putty_unmarshal_key k b (m_comment m) Hc Hf Eb) as [pkk [Hp Ha]].
+    unfold putty_ppk. cbn [pp_public pp_comment pp_encryption pp_kdf pp_version pp_passes pp_memory pp_parallelism].
+    rewrite Hp. cbn [bind]. cbn [fx_size fx_unit fx_kdf_v2 all_fixed]. rewrite Ha.
+    cbn [description_of meta_before meta_after]. fold (comment_attr (m_comment m)).
+    destruct (negb (bytes_eqb (m_ppk_encryption m) (bs "none")) && negb (bytes_eqb (m_ppk_kdf m) [])).
+    + unfold ppk_kdf_value. cbn [app]. now rewrite <- !app_assoc.
+    + cbn [app]. now rewrite <- !app_assoc.
+  - (* SSH1 *)
+    destruct k as [n e| | | | | |]; try discriminate. cbn [fits] in Hf. unfold describe; cbn [describe_fx].
+    unfold ssh1_private_key. rewrite (ssh1_parse_enc dec n e _ _ _ _ _ _ _ _ Hf). cbn [bind].
+    unfold ssh1_public_attrs, s1_n. cbn [s1_n_raw s1_comment fx_size all_fixed].
+    rewrite be_to_N_be_min. cbn [description_of meta_before meta_after key_attrs crypto_public_attrs].
+    fold (comment_attr (m_comment m)). now rewrite app_nil_r.
+Qed.
+
+(* ---------- consequences ---------- *)
+
+Lemma irrelevant_comment_attr : forall c, irrelevant (comment_attr c) = true.
+Proof. intros [|x c]; reflexivity. Qed.
+
+Lemma irrelevant_meta_before : forall c k m, irrelevant (meta_before c k m) = true.
+Proof.
+  intros c k m. destruct c; cbn [meta_before]; try reflexivity;
+    cbn [irrelevant forallb fst]; try fold (irrelevant (comment_attr (m_comment m)));
+    rewrite ?irrelevant_comment_attr; reflexivity.
+Qed.
+
+Lemma irrelevant_meta_after : forall c m, irrelevant (meta_after c m) = true.
+Proof.
+  intros c m. destruct c; cbn [meta_after]; try reflexivity.
+  - destruct (bytes_eqb (m_cipher m) (bs "none")); reflexivity.
+  - destruct (negb _ && negb _); reflexivity.
+Qed.
+
+Lemma facts_expected_info : forall c k m,
+  key_facts (Ok (expected_info c k m)) = (Some (expected_algorithm k), expected_size k, expected_curve k).
+Proof.
+  intros. unfold expected_info. rewrite key_facts_ok, facts_sandwich, facts_key_attrs;
+    [reflexivity|apply irrelevant_meta_before|apply irrelevant_meta_after].
+Qed.
+
+Lemma describe_key_facts : forall lib dec c k m,
+  carries c k = true -> fits c k m -> so_accepted lib = true ->
+  key_facts (describe lib dec c k m) = (Some (expected_algorithm k), expected_size k, expected_curve k).
+Proof. intros. rewrite describe_exact by assumption. apply facts_expected_info. Qed.
+
+Lemma container_independent : forall lib1 lib2 dec1 dec2 c1 c2 k m1 m2,
+  carries c1 k = true -> carries c2 k = true -> fits c1 k m1 -> fits c2 k m2 ->
+  so_accepted lib1 = true -> so_accepted lib2 = true ->
+  key_facts (describe lib1 dec1 c1 k m1) = key_facts (describe lib2 dec2 c2 k m2).
+Proof. intros. now rewrite !describe_key_facts. Qed.
+
+Lemma rsa_size : forall lib dec c n e m,
+  carries c (KRsa n e) = true -> fits c (KRsa n e) m -> so_accepted lib = true ->
+  attr_of "Size" (describe lib dec c (KRsa n e) m) = Some (bits_value (bitlen n))
+  /\ attr_of "Algorithm" (describe lib dec c (KRsa n e) m) = Some (bs "RSA").
+Proof.
+  intros lib dec c n e m Hc Hf Ha. pose proof (describe_key_facts lib dec c _ m Hc Hf Ha) as H.
+  unfold key_facts in H. cbn [expected_algorithm expected_size expected_curve] in H. inversion H. now split.
+Qed.
+
+Lemma dsa_size : forall lib dec c p q g y m,
+  carries c (KDsa p q g y) = true -> fits c (KDsa p q g y) m -> so_accepted lib = true ->
+  attr_of "Size" (describe lib dec c (KDsa p q g y) m) = Some (bits_value (bitlen p))
+  /\ attr_of "Algorithm" (describe lib dec c (KDsa p q g y) m) = Some (bs "DSA").
+Proof.
+  intros lib dec c p q g y m Hc Hf Ha. pose proof (describe_key_facts lib dec c _ m Hc Hf Ha) as H.
+  unfold key_facts in H. cbn [expected_algorithm expected_size expected_curve] in H. inversion H. now split.
+Qed.
+
+Lemma curve_named : forall lib dec c cv pt m,
+  carries c (KEc cv pt) = true -> fits c (KEc cv pt) m -> so_accepted lib = true ->
+  attr_of "Curve" (describe lib dec c (KEc cv pt) m) = Some (curve_shown cv)
+  /\ attr_of "Algorithm" (describe lib dec c (KEc cv pt) m) = Some (bs "ECDSA")
+  /\ attr_of "Size" (describe lib dec c (KEc cv pt) m) = None.
+Proof.
+  intros lib dec c cv pt m Hc Hf Ha. pose proof (describe_key_facts lib dec c _ m Hc Hf Ha) as H.
+  unfold key_facts in H. cbn [expected_algorithm expected_size expected_curve] in H. inversion H. now repeat split.
+Qed.
+
+(* the displayed curve name starts with the NIST name of the key's curve *)
+Lemma curve_shown_nist : forall cv, prefix_of (curve_nist cv ++ [32]) (curve_shown cv) = true.
+Proof. intros []; reflexivity. Qed.
+
+Lemma curve_edwards : forall lib dec c k m,
+  match k with KEd25519 _ | KEd448 _ | KX25519 _ | KX448 _ => True | _ => False end ->
+  carries c k = true -> fits c k m -> so_accepted lib = true ->
+  attr_of "Curve" (describe lib dec c k m) = expected_curve k
+  /\ attr_of "Algorithm" (describe lib dec c k m) = Some (expected_algorithm k).
+Proof.
+  intros lib dec c k m _ Hc Hf Ha. pose proof (describe_key_facts lib dec c _ m Hc Hf Ha) as H.
+  unfold key_facts in H. inversion H. now split.
+Qed.
+
+(* ---------- metadata ---------- *)
+
+Lemma lookup_key_attrs_none : forall n k, is_fact_name n = false -> lookup_attr n (key_attrs k) = None.
+Proof.
+  intros n k Hn. unfold is_fact_name in Hn.
+  apply orb_false_elim in Hn as [Hn Hc]. apply orb_false_elim in Hn as [Ha Hs].
+  assert (Ha' : bytes_eqb (bs "Algorithm") n = false).
+  { destruct (bytes_eqb (bs "Algorithm") n) eqn:E; [|reflexivity]. apply bytes_eqb_eq in E. subst. now rewrite bytes_eqb_refl in Ha. }
+  assert (Hs' : bytes_eqb (bs "Size") n = false).
+  { destruct (bytes_eqb (bs "Size") n) eqn:E; [|reflexivity]. apply bytes_eqb_eq in E. subst. now rewrite bytes_eqb_refl in Hs. }
+  assert (Hc' : bytes_eqb (bs "Curve") n = false).
+  { destruct (bytes_eqb (bs "Curve") n) eqn:E; [|reflexivity]. apply bytes_eqb_eq in E. subst. now rewrite bytes_eqb_refl in Hc. }
+  destruct k; cbn [key_attrs]; unfold rsa_public_attrs, dsa_attrs, ecdsa_public_attrs, ed25519_attrs, ed448_attrs, x25519_attrs, x448_attrs;
+    cbn [lookup_attr]; rewrite ?Ha', ?Hs', ?Hc'; reflexivity.
+Qed.
+
+Lemma lookup_comment_attr : forall c, lookup_attr (bs "Comment") (comment_attr c) = match c with [] => None | _ => Some c end.
+Proof. intros [|x c]; reflexivity. Qed.
+
+Definition shown (name : string) (c : container) (k : key) (m : meta) : option bytes :=
+  lookup_attr (bs name) (i_attrs (expected_info c k m)).
+Arguments shown name%string c k m.
+
+(* the key type label and the comment are shown as stored *)
+Lemma shown_type : forall c k m, match c with CSshPublic | COpenSshPrivate | CPutty => True | _ => False end ->
+  shown "Type" c k m = Some (ssh_type_of k).
+Proof. intros c k m H. destruct c; try contradiction; reflexivity. Qed.
+
+Lemma shown_comment : forall c k m, match c with CSshPublic | CPutty | CSsh1 => True | _ => False end ->
+  shown "Comment" c k m = match m_comment m with [] => None | _ => Some (m_comment m) end.
+Proof.
+  intros c k m H. unfold shown, expected_info. cbn [i_attrs].
+  destruct c; try contradiction; cbn [meta_before meta_after].
+  - cbn [app lookup_attr]. change (bytes_eqb (bs "Type") (bs "Comment")) with false. cbv iota.
+    rewrite !lookup_app, lookup_comment_attr, lookup_key_attrs_none by reflexivity.
+    destruct (m_comment m); reflexivity.
+  - cbn [app lookup_attr]. change (bytes_eqb (bs "Type") (bs "Comment")) with false. cbv iota.
+    rewrite !lookup_app, lookup_comment_attr, lookup_key_attrs_none by reflexivity.
+    destruct (m_comment m); [|reflexivity]. cbn [lookup_attr].
+    change (bytes_eqb (bs "Encryption") (bs "Comment")) with false. cbv iota.
+    destruct (negb _ && negb _); reflexivity.
+  - rewrite !lookup_app, lookup_comment_attr, lookup_key_attrs_none by reflexivity.
+    destruct (m_comment m); reflexivity.
+Qed.
+
+(* OpenSSH private key: cipher, KDF and its rounds as stored; none of them for a key in the clear *)
+Lemma shown_openssh : forall k m,
+  let enc := negb (bytes_eqb (m_cipher m) (bs "none")) in
+  shown "Cipher" COpenSshPrivate k m = (if enc then Some (m_cipher m) else None)
+  /\ shown "KDF" COpenSshPrivate k m = (if enc then Some (m_kdf m) else None)
+  /\ shown "KDF rounds" COpenSshPrivate k m = (if enc then Some (dec_of_N (m_rounds m)) else None).
+Proof.
+  intros k m enc. unfold shown, expected_info. cbn [i_attrs meta_before meta_after].
+  cbn [app lookup_attr].
+  change (bytes_eqb (bs "Type") (bs "Cipher")) with false.
+  change (bytes_eqb (bs "Type") (bs "KDF")) with false.
+  change (bytes_eqb (bs "Type") (bs "KDF rounds")) with false. cbv iota.
+  rewrite !lookup_app, !lookup_key_attrs_none by reflexivity.
+  unfold enc. destruct (bytes_eqb (m_cipher m) (bs "none")); cbn [negb]; repeat split; reflexivity.
+Qed.
+
+(* PuTTY: encryption as stored; the KDF line exactly when the file stores one, memory in KiB *)
+Lemma shown_putty : forall k m,
+  shown "Encryption" CPutty k m = Some (m_ppk_encryption m)
+  /\ shown "KDF" CPutty k m =
+     (if negb (bytes_eqb (m_ppk_encryption m) (bs "none")) && negb (bytes_eqb (m_ppk_kdf m) [])
+      then Some (ppk_kdf_value m) else None).
+Proof.
+  intros k m. unfold shown, expected_info. cbn [i_attrs meta_before meta_after].
+  cbn [app lookup_attr].
+  change (bytes_eqb (bs "Type") (bs "Encryption")) with false.
+  change (bytes_eqb (bs "Type") (bs "KDF")) with false. cbv iota.
+  rewrite !lookup_app, !lookup_key_attrs_none by reflexivity.
+  assert (Hc : forall n, bytes_eqb (bs "Comment") n = false -> lookup_attr n (comment_attr (m_comment m)) = None).
+  { intros n Hn. destruct (m_comment m); cbn [comment_attr lookup_attr]; [reflexivity|now rewrite Hn]. }
+  rewrite !Hc by reflexivity. cbn [lookup_attr].
+  change (bytes_eqb (bs "Encryption") (bs "Encryption")) with true.
+  change (bytes_eqb (bs "Encryption") (bs "KDF")) with false. cbv iota.
+  split; [reflexivity|]. destruct (negb _ && negb _); reflexivity.
+Qed.
+
+(* known_hosts: the host patterns as stored, joined by ", " *)
+Lemma known_hosts_shown : forall lib hosts blob comment k,
+  ssh_parse_public lib blob = Ok k ->
+  exists rest, ssh_known_hosts_one true lib (KhEntry hosts blob comment)
+               = Ok (Info (bs "SSH known_hosts") [] [Info (bs "SSH public key") ((bs "Hosts", join (bs ", ") hosts) :: rest) []])
+               /\ rest = ssh_public_attrs true k comment.
+Proof. intros lib hosts blob comment k H. eexists. unfold ssh_known_hosts_one. rewrite H. split; reflexivity. Qed.
+
+(* ---------- the private half never reaches the description ---------- *)
+
+Definition same_public_meta (m m' : meta) : Prop :=
+  m_comment m = m_comment m' /\ m_cipher m = m_cipher m' /\ m_kdf m = m_kdf m' /\ m_rounds m = m_rounds m' /\
+  m_ppk_version m = m_ppk_version m' /\ m_ppk_encryption m = m_ppk_encryption m' /\ m_ppk_kdf m = m_ppk_kdf m' /\
+  m_ppk_memory m = m_ppk_memory m' /\ m_ppk_passes m = m_ppk_passes m' /\ m_ppk_parallelism m = m_ppk_parallelism m'.
+
+Lemma expected_info_public : forall c k m m', same_public_meta m m' -> expected_info c k m = expected_info c k m'.
+Proof.
+  intros c k m m' (H1 & H2 & H3 & H4 & H5 & H6 & H7 & H8 & H9 & H10).
+  unfold expected_info, description_of, meta_before, meta_after, ppk_kdf_value.
+  now rewrite H1, H2, H3, H4, H5, H6, H7, H8, H9, H10.
+Qed.
+
+(* two files that differ only in private components (SSH1 d, q^-1, q, p, check bytes, padding;
+   the OpenSSH private block and salt) get the same report *)
+Lemma no_private : forall lib lib' dec dec' c k m m',
+  carries c k = true -> fits c k m -> fits c k m' -> so_accepted lib = true -> so_accepted lib' = true ->
+  same_public_meta m m' ->
+  describe lib dec c k m = describe lib' dec' c k m'.
+Proof. intros. rewrite !describe_exact by assumption. f_equal. now apply expected_info_public. Qed.
+
+(* ================================================================== *)
+(* no panic for any bytes: OpenSSH private key, PuTTY                  *)
+(* ================================================================== *)
+
+Lemma ssh_parse_public_no_panic : forall lib blob s, ssh_parse_public lib blob <> Panic s.
+Proof.
+  intros lib blob s. unfold ssh_parse_public.
+  repeat match goal with
+  | |- context [match ?x with _ => _ end] => destruct x; try discriminate
+  end.
+Qed.
+
+Lemma ossh_unmarshal_no_panic : forall rem s, ossh_unmarshal rem <> Panic s.
+Proof.
+  intros rem s. unfold ossh_unmarshal.
+  repeat match goal with
+  | |- context [match ?x with _ => _ end] => destruct x; try discriminate
+  end.
+Qed.
+
+Lemma openssh_private_no_panic : forall lib der s, parse_openssh_private all_fixed lib der <> Panic s.
+Proof.
+  intros lib der s. unfold parse_openssh_private.
+  destruct (negb (prefix_of ossh_magic der)); [discriminate|].
+  destruct (ossh_unmarshal (drop (length ossh_magic) der)) as [w|e|p] eqn:E; cbn [bind];
+    [|discriminate|exfalso; exact (ossh_unmarshal_no_panic _ p E)].
+  destruct (negb (oh_numkeys w =? 1)); [discriminate|].
+  destruct (ssh_parse_public lib (oh_pubkey w)) as [pk|e|p] eqn:Ep;
+    [|discriminate|exfalso; exact (ssh_parse_public_no_panic lib _ p Ep)].
+  destruct (bytes_eqb (oh_cipher w) (bs "none")); [discriminate|].
+  cbn [fx_kdf_opts all_fixed].
+  destruct (parse_kdf_options true _ _ _) as [[sa ro]|e|p] eqn:Ek; try discriminate.
+  exfalso. exact (kdf_no_panic _ _ _ p Ek).
+Qed.
+
+Lemma putty_unmarshal_no_panic : forall blob s, putty_unmarshal_public blob <> Panic s.
+Proof.
+  intros blob s. unfold putty_unmarshal_public.
+  repeat match goal with
+  | |- context [match ?x with _ => _ end] => destruct x; try discriminate
+  end.
+Qed.
+
+Lemma putty_ppk_no_panic : forall fx p s, putty_ppk fx p <> Panic s.
+Proof.
+  intros fx [k|] s; cbn [putty_ppk]; [|discriminate].
+  destruct (putty_unmarshal_public (pp_public k)) as [x|e|q] eqn:E; cbn [bind];
+    [|discriminate|exfalso; exact (putty_unmarshal_no_panic _ q E)].
+  destruct (negb _ && _); discriminate.
+Qed.
+
+(* ================================================================== *)
+(* the code as found refutes the property: witnesses                   *)
+(* ================================================================== *)
+
+Definition meta0 : meta :=
+  mk_meta (bs "user@host") (bs "none") (bs "none") [] 0 [1; 2; 3; 4]
+          3 (bs "none") [] 0 0 0 7 9 12345 77 251 241 [].
+
+Definition f26_n : N := 2 ^ 2046 + 12345.
+Definition lib_yes : ssh_oracle := mk_ssh_oracle true [].
+
+(* F26: a 2047-bit modulus was reported as 2048 bits by the OpenSSH, PuTTY and SSH1 routes *)
+Lemma F26_witness :
+  bitlen f26_n = 2047
+  /\ attr_of "Size" (describe_fx none_fixed lib_yes (fun x => x) CSshPublic (KRsa f26_n 65537) meta0) = Some (bs "2048 bits")
+  /\ attr_of "Size" (describe_fx none_fixed lib_yes (fun x => x) COpenSshPrivate (KRsa f26_n 65537) meta0) = Some (bs "2048 bits")
+  /\ attr_of "Size" (describe_fx none_fixed lib_yes (fun x => x) CPutty (KRsa f26_n 65537) meta0) = Some (bs "2048 bits")
+  /\ attr_of "Size" (describe_fx none_fixed lib_yes (fun x => x) CSsh1 (KRsa f26_n 65537) meta0) = Some (bs "2048 bits")
+  /\ attr_of "Size" (describe_fx none_fixed lib_yes (fun x => x) CPkcs1Pub (KRsa f26_n 65537) meta0) = Some (bs "2047 bits")
+  /\ attr_of "Size" (describe lib_yes (fun x => x) CSsh1 (KRsa f26_n 65537) meta0) = Some (bs "2047 bits").
+Proof. repeat split; vm_compute; reflexivity. Qed.
+
+(* F27 / N1: the PPK KDF line said MB, and was shown for version-2 files that store no KDF *)
+Definition meta_ppk3 : meta :=
+  mk_meta (bs "c") (bs "none") (bs "none") [] 0 [] 3 (bs "aes256-cbc") (bs "Argon2id") 8192 13 1 0 0 0 0 0 0 [].
+Definition meta_ppk2 : meta :=
+  mk_meta (bs "c") (bs "none") (bs "none") [] 0 [] 2 (bs "aes256-cbc") [] 0 0 0 0 0 0 0 0 0 [].
+Definition ed_pk : bytes := repeat 7 32.
+
+Lemma F27_witness :
+  attr_of "KDF" (describe_fx none_fixed lib_yes (fun x => x) CPutty (KEd25519 ed_pk) meta_ppk3)
+    = Some (bs "Argon2id (13 passes, 8192 MB, parallelism: 1)")
+  /\ attr_of "KDF" (describe lib_yes (fun x => x) CPutty (KEd25519 ed_pk) meta_ppk3)
+    = Some (bs "Argon2id (13 passes, 8192 KiB, parallelism: 1)").
+Proof. split; vm_compute; reflexivity. Qed.
+
+Lemma N1_witness :
+  attr_of "KDF" (describe_fx none_fixed lib_yes (fun x => x) CPutty (KEd25519 ed_pk) meta_ppk2)
+    = Some (bs " (0 passes, 0 MB, parallelism: 0)")
+  /\ attr_of "KDF" (describe lib_yes (fun x => x) CPutty (KEd25519 ed_pk) meta_ppk2) = None.
+Proof. split; vm_compute; reflexivity. Qed.
+
+(* F35: KDF options FF FF FF FC in an encrypted OpenSSH private key *)
+Definition f35_file : bytes :=
+  ossh_enc (bs "aes256-ctr") (bs "bcrypt") [255; 255; 255; 252] (ssh_ed25519_blob ed_pk) [1; 2; 3; 4; 5; 6; 7; 8].
+
+Lemma F35_witness :
+  is_panic (parse_openssh_private none_fixed lib_yes f35_file) = true
+  /\ parse_openssh_private all_fixed lib_yes f35_file
+     = Ok (Info (bs "OpenSSH private key (encrypted)")
+             [(bs "Type", bs "ssh-ed25519"); (bs "Algorithm", bs "EdDSA"); (bs "Curve", bs "Ed25519");
+              (bs "Cipher", bs "aes256-ctr"); (bs "KDF", bs "bcrypt")] []).
+Proof. split; vm_compute; reflexivity. Qed.
+
+(* N2: an encrypted SSH1 key (cipher type 3, private half unreadable) was not described at all *)
+Definition n2_file : bytes :=
+  ssh1_header ++ [3] ++ [0; 0; 0; 0] ++ N_to_be 4 1024 ++ ssh1_mpi_enc (2 ^ 1023 + 5) ++ ssh1_mpi_enc 65537 ++
+  ssh1_string_enc (bs "enc") ++ [1; 2; 3; 4; 5; 6; 7; 8; 9; 10; 11; 12; 13; 14; 15; 16].
+
+Lemma N2_witness :
+  is_ok (ssh1_private_key none_fixed (fun x => x) n2_file) = false
+  /\ ssh1_private_key all_fixed (fun x => x) n2_file
+     = Ok (Info (bs "SSH v1 key (encrypted)")
+             [(bs "Comment", bs "enc"); (bs "Algorithm", bs "RSA"); (bs "Size", bs "1024 bits")] []).
+Proof. split; vm_compute; reflexivity. Qed.
+
+(* ================================================================== *)
+(* the hypotheses of the theorems are met by ordinary keys             *)
+(* ================================================================== *)
+
+Definition meta_enc : meta :=
+  mk_meta (bs "user@host") (bs "aes256-ctr") (bs "bcrypt") (repeat 5 16) 16 (repeat 9 64)
+          3 (bs "aes256-cbc") (bs "Argon2id") 8192 13 1 7 9 12345 77 251 241 [0; 0].
+
+Ltac decide_closed := first [exact I | (vm_compute; reflexivity) | (vm_compute; intros; discriminate)].
+
+Lemma fits_example_rsa : forall c, carries c (KRsa f26_n 65537) = true -> fits c (KRsa f26_n 65537) meta_enc.
+Proof.
+  intros c _. destruct c; cbn [fits]; try exact I;
+    unfold key_fits_ssh, small, e_ok, fits32, ssh1_sizes_ok; repeat split; decide_closed.
+Qed.
+
+Lemma example_rsa_everywhere :
+  forallb (fun c => carries c (KRsa f26_n 65537))
+    [CPkcs1Pub; CPkcs1Priv; CSpki; CPkcs8; CSshPublic; COpenSshPrivate; CPutty; CSsh1] = true.
+Proof. reflexivity. Qed.
+
+Lemma example_other_keys :
+  carries COpenSshPrivate (KEc P384 [4; 1; 2]) = true /\ carries CPutty (KEd448 (repeat 1 57)) = true
+  /\ carries CSec1 (KEc P224 [4]) = true /\ carries CSshPublic (KDsa (2 ^ 1023 + 1) 5 6 7) = true
+  /\ carries CSshPublic (KEc P224 [4]) = false /\ carries CSshPublic (KEd448 []) = false.
+Proof. repeat split; vm_compute; reflexivity. Qed.
+
+(* ---------- metadata, stated on the description itself ---------- *)
+
+Lemma attr_of_describe : forall name lib dec c k m,
+  carries c k = true -> fits c k m -> so_accepted lib = true ->
+  attr_of name (describe lib dec c k m) = shown name c k m.
+Proof. intros. rewrite describe_exact by assumption. reflexivity. Qed.
+
+Lemma metadata_shown : forall lib dec c k m,
+  carries c k = true -> fits c k m -> so_accepted lib = true ->
+  let r := describe lib dec c k m in
+  (match c with CSshPublic | COpenSshPrivate | CPutty => attr_of "Type" r = Some (ssh_type_of k) | _ => True end)
+  /\ (match c with
+      | CSshPublic | CPutty | CSsh1 =>
+          attr_of "Comment" r = match m_comment m with [] => None | _ => Some (m_comment m) end
+      | _ => True end)
+  /\ (match c with
+      | COpenSshPrivate =>
+          let enc := negb (bytes_eqb (m_cipher m) (bs "none")) in
+          attr_of "Cipher" r = (if enc then Some (m_cipher m) else None)
+          /\ attr_of "KDF" r = (if enc then Some (m_kdf m) else None)
+          /\ attr_of "KDF rounds" r = (if enc then Some (dec_of_N (m_rounds m)) else None)
+      | CPutty =>
+          attr_of "Encryption" r = Some (m_ppk_encryption m)
+          /\ attr_of "KDF" r =
+             (if negb (bytes_eqb (m_ppk_encryption m) (bs "none")) && negb (bytes_eqb (m_ppk_kdf m) [])
+              then Some (ppk_kdf_value m) else None)
+      | _ => True end).
+Proof.
+  intros lib dec c k m Hc Hf Ha r. unfold r.
+  repeat split; destruct c; try exact I; rewrite ?attr_of_describe by assumption;
+    try (apply shown_type; exact I); try (apply shown_comment; exact I);
+    try apply shown_openssh; try apply shown_putty.
+Qed.
+
+(* explicit (specifiedCurve) parameters over a prime field: the prime's size is its bit length *)
+Lemma explicit_prime_size : forall p name,
+  ec_explicit_attrs [1; 2; 840; 10045; 1; 1] (Some (der_int_enc p)) None (Ok name)
+  = Ok ([(bs "Field type", bs "prime field"); (bs "Prime size", bits_value (bitlen p))] ++
+        match name with [] => [] | _ :: _ => [(bs "Curve (inferred)", name)] end).
+Proof.
+  intros p name. unfold ec_explicit_attrs. eval_oid. cbn [bind].
+  rewrite twos_der_int_enc, zbitlen_of_N.
+  change (field_type_from_oid [1; 2; 840; 10045; 1; 1]) with (bs "prime field").
+  destruct name; reflexivity.
+Qed.
